@@ -168,1989 +168,1916 @@ Packet
     // trailing space 
     , }
 ")).
-Eval vm_compute in ("<<<M3683>>>" ++ check (runes_of_ascii "// `tick` ""quote"" 'q'
-packet A {
-    @lengthOf(msg_type)
-    repeat int64 rootA,
-    x,
-    @calculatedFrom("""")
-    //x
-    x @lengthOf(trueish),
-    match x as x_y_z {
-        ""a\""b"" : packetx,
-    },
-    packetx @calculatedFrom("""") `u8 x,`,
-    float32 u128 `crlf
-    line`,
-    match x as T {
-        [""packet""] : body,
-    },
-    x_y_z @calculatedFrom(""""),
-    rootA tag,
-}
-
-root packet body {
-    @calculatedFrom(""a\\"")
-    repeat i8 metadata,
-    @calculatedFrom(""" ++ [128512]%N ++ runes_of_ascii """)
-    repeat pack string_,
-    @rightPad(' ')
-    char[10] calculatedFrom @lengthOf(pack) `doc`,
-    @calculatedFrom(""it's"")
-    repeat Packet {
-        // " ++ [27880; 37322]%N ++ runes_of_ascii "
-        match options1 as body {
-            ""\n"" : Foo,
-            3 : asx,
-        },
-    },
-    @lengthOf(As)
-    float64 Logon @calculatedFrom(""""),
-    i64_ {
-        match x_y_z as string_ {
-            42 : pack,
-            ""\" ++ [233]%N ++ runes_of_ascii """ : rootA,
-            255 : lengthOf,
-            4294967296 : tag,
-        },
-    },
-    @tag(3)
-    @tag(7)
-    @rightPad()
-    repeat uint64 u128,
-    int16 packetx `" ++ [233]%N ++ runes_of_ascii "`,
-    repeat metadata len,
-}
-
-packet rootA {
-    repeat A {
-        repeat T {
-            roots @lengthOf(i64_),
-            u16 tag @calculatedFrom(""packet""),
-            string falsey @calculatedFrom(""\n""),
-            match x as u8x {
-                0 : string_,
-                """" : _x,
-                ""\" ++ [233]%N ++ runes_of_ascii """ : MetaDataX,
-            },
-        },
-    },
-    @calculatedFrom(""a\""b"")
-    repeat i16 i8i8,
-    repeat float32 BodyLength `two words`,
-    @leftPad()
-    u32 _x @calculatedFrom(""CRC32""),
-    @leftPad(' ')
-    crc @lengthOf(o) `u8 x,`,
-    @lengthOf(Packet)
-    msg_type Z9_,
-    u {
-        repeat o,
-    },
-}
-
-packet rootA {
-    repeat T uint8x,
-}
-
-//	t
-packet x_y_z {
-    @tag(255)
-    float64 lengthOf,
-    @rightPad('0')
-    len @calculatedFrom(""a\\""),
-    uint32 Logon @calculatedFrom(""`tick`"") `it's`,
-    @rightPad()
-    zchar[00] len,
-    @tag(3)
-    char[255] Header `{ , }`,
-    match Logon as metadata {
-        ""{,}"" : pack,
-    },
-}")).
-Eval vm_compute in ("<<<M1022>>>" ++ check (runes_of_ascii "packet T
-{
-repeat	zchar[007 ] x_y_z  ,repeat Logon{ repeat	f32a `// not a comment` , string uint8x `crlf
-line`
-, }//	t
-,	int64 len `// not a comment` ,match
-repeatCount as
-    // " ++ [27880; 37322]%N ++ runes_of_ascii "
-    x_y_z
-{ 00
-    :
-    packetx , [ ""CRC32""
-, """ ++ [128512]%N ++ runes_of_ascii """ ] : metadata
-, 00// `tick` ""quote"" 'q'
-: // trailing space 
-metadata
-    , }	, repeat
-msg_type{ falsey// c
-{ repeat len { match float as stringy
-{
-    // c
-    [
-//
-// " ++ [128512]%N ++ runes_of_ascii " emoji
-007 ,	""packet""  ,
-007
-, ""\n"",""abc""
-    ,1 , 4294967296 ]: // " ++ [128512]%N ++ runes_of_ascii " emoji
-matchKey ,
-42 :f32a// packet A { u8 x, }
-,
-[ 10
-// @lengthOf(
-// c
-,	""a\\""	]:a1
-//
-// " ++ [128512]%N ++ runes_of_ascii " emoji
-,
-    65535 : tag// trailing space 
-, // `tick` ""quote"" 'q'
-} , } // " ++ [27880; 37322]%N ++ runes_of_ascii "
-, } ,u64 _x`two words` //x
-, pack  , } , repeat	As//
-{
-repeat string
-    pack , uint8// c
-leftPad
-@lengthOf( As )
-, string options1
-@calculatedFrom( ""// no comment"" /// triple
-) `" ++ [28040; 24687; 31867; 22411]%N ++ runes_of_ascii "`
-    ,  u8 leftPad
-    @lengthOf( options1) ,}
-    // @lengthOf(
-    , }//
-packet float
-    { @tag( 42
-) //
-repeat int64 float
-    `a\` , @calculatedFrom(	""// no comment"" )	repeat i64_
-    packetx  , match lengthOf as // a // b
-falsey // @lengthOf(
-{ [42 , ""\" ++ [233]%N ++ runes_of_ascii """,10 , 10
-    ,
-007 , ""abc"" , 1	, 7] : metadata //	t
-, }	, repeat	int ,
-    repeatCount
-, zchar[ 255
-] x
-    @lengthOf(A
-// c
-// @lengthOf(
-)	, @leftPad (
-' '	) @lengthOf(
-    o
+Eval vm_compute in ("<<<M1238>>>" ++ check (runes_of_ascii "// " ++ [27880; 37322]%N ++ runes_of_ascii "
+packet A	{@calculatedFrom(
+    ""a	b"" ) u128 @lengthOf( asx /// triple
 )
-    @rightPad
-    (
-'\x00'
-)
-// a // b
-// @lengthOf(
-repeat float64 leftPad
-    , @leftPad (  '0') match	i8i8 as
-    // @lengthOf(
-    charz
-{ """ ++ [28040; 24687]%N ++ runes_of_ascii """ :roots , } , @calculatedFrom(
-/// triple
-// packet A { u8 x, }
-""abc"" )
-    repeat zchar[
-    00 ] matchKey , // packet A { u8 x, }
-uint16
-    /// triple
-    string_`doc`  , }
-//x
-")).
-Eval vm_compute in ("<<<M441>>>" ++ check (runes_of_ascii "packet // " ++ [27880; 37322]%N ++ runes_of_ascii "
-o //x
-{  @tag( 0 ) match leftPad as // @lengthOf(
-metadata { 1 :	calculatedFrom ,
-    7 : i64_ ,
-""it's""
-    : i64_ 0123456789 :repeatCount , 0
-    // packet A { u8 x, }
-    :
-    Foo }
-, lengthOf { A`doc`	, } , char[3
-] matchKey `{ , }` ,leftPad // `tick` ""quote"" 'q'
-{ repeat
-    // a // b
-    u8
-options1 ,
-body @calculatedFrom( """ ++ [128512]%N ++ runes_of_ascii """ )
-, zchar { // `tick` ""quote"" 'q'
-u64 Logon @lengthOf( u8x	)
-,
-char[ 007 ] packetx
-@lengthOf(
-    zchar )`
-` ,}
-, repeat metadata x ,	}
-    , u32 repeatCount
-    ,@tag(
-    // c
-    10
-)
-    @lengthOf( T  )
-u16 repeatCount `say ""hi""`, /// triple
-repeat
-u128 {
-//
-// packet A { u8 x, }
-zchar[4294967296 ] BodyLength  ,} , i32  x `doc`
-, }
-    packet MetaDataX { // a // b
-@tag(// c
-7
-) repeat lengthOf
-// a // b
-//
-,
-    } root
-packet As
-    {
-@lengthOf(
-lengthOf
-) match _x	as T{""packet"":string_ ,3 : // @lengthOf(
-BodyLength ,""" ++ [128512]%N ++ runes_of_ascii """ // trailing space 
-:
-    i64_, 0 :
-    lengthOf // trailing space 
-, /// triple
-7
-    : Logon} ,Z9_
-@calculatedFrom( ""\" ++ [233]%N ++ runes_of_ascii """ //	t
-) ,	float32
-int @lengthOf(
-    msg_type ) `// not a comment`
-// packet A { u8 x, }
-// `tick` ""quote"" 'q'
-,char[] A @calculatedFrom(	""\n""
-    )
-, @tag(4294967296) i8i8 {uint32
-u8x , } ,
-zchar[
-00
-// c
-// c
-] uint8x ,repeat msg_type string_	, repeat zchar[007//x
-]
-    Pad // " ++ [27880; 37322]%N ++ runes_of_ascii "
-`doc`,  match rootA as stringy {  007: leftPad , [ """ ++ [233]%N ++ runes_of_ascii "t" ++ [233]%N ++ runes_of_ascii """, 7 ] :
-    x
-},}
-")).
-Eval vm_compute in ("<<<M281>>>" ++ check (runes_of_ascii "// @lengthOf(
-root packet  leftPad{ match Logon as	msg_type { ""it's"" :
-    int , """ ++ [128512]%N ++ runes_of_ascii """
-    :charz ""a\\""
-: options1 , } , @rightPad(
-    ' ') asx `doc`
-, @leftPad( '0' ) uint32 charz, @tag(
-255 ) zchar[ 10 ]Pad ``
-, string  asx	`it's` , }
-packet
-// packet A { u8 x, }
-// trailing space 
-Pad {@lengthOf(lengthOf )
-@lengthOf( crc  )u8x
-    `a\` ,
-float64 f32a  @calculatedFrom(
-""a\""b""
-    ) `it's`  ,@lengthOf(	options1 ) @tag( 42 )@calculatedFrom(
-// a // b
-//x
-""1""	) zchar[ 7 ] repeatCount	`say ""hi""` , @calculatedFrom( ""// no comment"" )
-    //x
-    zchar[ 3] i8i8 @calculatedFrom(
-""// no comment"" ) `" ++ [233]%N ++ runes_of_ascii "`,@tag( //
-65535 )
-    match o
-    as float
-    { [ // @lengthOf(
-10 ]
-    :len } ,@tag(3//x
-)
-match repeatCount as Pad {
-    [ ""// no comment"",
-42 , ""\n""
-,
-    007 , 3
-    , ""// no comment""
-    // c
-    ]
-:
-    calculatedFrom}
-    , u8x
-{ repeat
-    string x `it's` ,	x @calculatedFrom( """ ++ [128512]%N ++ runes_of_ascii """
-)//
-, falsey
-    { match	f32a as// c
-u128 { [ ""it's""
-    //x
-    ,
-    0123456789
-    , 0, """ ++ [233]%N ++ runes_of_ascii "t" ++ [233]%N ++ runes_of_ascii """ ,42 , 65535 // c
-,
-1 , 255 ] :
-    uint8x ,
-0 :asx ,} , repeat packetx u `{ , }` , string Foo	, x @calculatedFrom(
-""a	b"")//	t
-,
-} , o
-    pack
-    , }  , // a // b
-} packet i64_ { repeat
-char[ 3 ]
-a1
-,} options
-    // a // b
-    {	}")).
-Eval vm_compute in ("<<<M3591>>>" ++ check (runes_of_ascii "packet As {
-}
-
-MetaData BodyLength {
-    uint32 Z9_ `// not a comment`,
-}
-
-packet f32a {
-    f64 T @lengthOf(As) `u8 x,`,
-    repeat i16 i64_ `" ++ [28040; 24687; 31867; 22411]%N ++ runes_of_ascii "`,
-    char[007] falsey @lengthOf(Pad),
-    repeat leftPad {
-        u64 u8x,
-        char[] tag,
-    },
-    match As as len {
-        ""1"" : x_y_z,
-        255 : len,
-        007 : charz,
-        [
-            42, 10, 3, ""abc"", """ ++ [28040; 24687]%N ++ runes_of_ascii """,
-            ""it's""
-        ] : matchKey,
-        // `tick` ""quote"" 'q'
-    },// @lengthOf(
-}
-
-packet BodyLength {
-    @calculatedFrom(""// no comment"")
-    @lengthOf(Logon)
-    @tag(42)
-    //
-    // " ++ [128512]%N ++ runes_of_ascii " emoji
-    repeat rootA metadata,
-    @tag(4294967296)
-    repeat matchKey {
-        int8 pack,
-    },
-    @tag(65535)
-    @rightPad()
-    @lengthOf(Pad)
-    uint8x `{ , }`,
-    match Foo as As {
-        10 : uint8x,
-        0 : rootA,
-        007 : matchKey,
-        [""x y""] : u8x,
-    },
-    float64 i64_ @calculatedFrom(""// no comment""),
-    match trueish as matchKey {
-        // trailing space 
-        // trailing space 
-        """ ++ [233]%N ++ runes_of_ascii "t" ++ [233]%N ++ runes_of_ascii """ : _x,
-    },
-    chars @lengthOf(Packet) `crlf
-    line`,
-    char[] x,
-}
-
-MetaData falsey {
-    Z9_ options1 ``,
-}")).
-Eval vm_compute in ("<<<M922>>>" ++ check (runes_of_ascii "root packet o {	@leftPad
-// " ++ [128512]%N ++ runes_of_ascii " emoji
-//x
-( '0' ) u16 Pad , }  packet string_ { match o as
-    // c
-    chars{ [ 3 , """ ++ [128512]%N ++ runes_of_ascii """ // trailing space 
-] : _x  , }
-,
-char[]
-    rootA @lengthOf( f32a ) `it's` , @leftPad (
-// " ++ [128512]%N ++ runes_of_ascii " emoji
-// a // b
-) // packet A { u8 x, }
-repeat metadata//x
-,@calculatedFrom(	""it's""
-// trailing space 
-// `tick` ""quote"" 'q'
-)zchar[
-    // trailing space 
-    3 ]i8i8 @lengthOf(	options1)`line1
-line2`
-    , }
-root packet	metadata{
-    match MetaDataX as falsey{ 42 :
-Header ""1"":Z9_
-    , } ,
-    As { uint8
-// `tick` ""quote"" 'q'
-// a // b
-pack
-    `" ++ [28040; 24687; 31867; 22411]%N ++ runes_of_ascii "` ,	char[
-    // " ++ [27880; 37322]%N ++ runes_of_ascii "
-    4294967296
-]stringy@calculatedFrom(
-""`tick`""
-)
-    ,  i16//x
-rootA @lengthOf(  Foo )`u8 x,` //
-,
-//
-//	t
-}, @leftPad (
-    ) match charz
-as f32a { [ ""\n"" , 0123456789] :	x_y_z, """ ++ [28040; 24687]%N ++ runes_of_ascii """
-    //
-    : string_ }, @lengthOf( Packet )  match
-Packet as
-asx { [ // a // b
-42
-,
-""\" ++ [233]%N ++ runes_of_ascii """ ] : lengthOf  ,65535:falsey } , body leftPad
-    ,
-char[
-0 ]
-o @calculatedFrom(
-    // " ++ [27880; 37322]%N ++ runes_of_ascii "
-    ""a\""b""
-) `it's` , @rightPad ( ' ')char[ 65535 /// triple
-] a1`crlf
-line` , T @lengthOf(	pack
-)
-    `" ++ [28040; 24687; 31867; 22411]%N ++ runes_of_ascii "` ,
-}
-")).
-Eval vm_compute in ("<<<M139>>>" ++ check (runes_of_ascii "
-packet len{ repeat i8i8 `u8 x,`
-    ,
-// @lengthOf(
-// a // b
-repeat char[ // c
-0123456789
-//x
-//
-]	a1 ,
-@rightPad ( )
-// trailing space 
-// " ++ [27880; 37322]%N ++ runes_of_ascii "
-match options1 as
-    string_
-{ 007 :uint8x  [
-""it's"", // c
-""\n"" ] : body } , zchar[ 1
-] float @lengthOf( Header) , @lengthOf( rootA )  @tag(
-    // packet A { u8 x, }
-    00 ) @lengthOf( metadata ) repeat
-    //x
-    metadata { int16
-    // " ++ [27880; 37322]%N ++ runes_of_ascii "
-    i64_
-    ,} ,
-i64_ , zchar[ 0123456789 ] lengthOf @calculatedFrom(""it's"" ) ,  } root
-    packet
-f32a { @leftPad
-    ( '0' ) @leftPad // " ++ [128512]%N ++ runes_of_ascii " emoji
-( '\x00' ) i64_`tab	here`
-,repeat x Packet ,char[ 42 ] Foo @calculatedFrom( ""abc"" ) , int16  uint8x @lengthOf( MetaDataX ) // @lengthOf(
-`a\`
-, // " ++ [27880; 37322]%N ++ runes_of_ascii "
-i8 Header `
-` /// triple
-, repeat//
-Pad
-    A , char[3  ] _x , @calculatedFrom(// trailing space 
-""x y"")
-match MetaDataX	as As {
-//	t
-//x
-[	""a	b"", """ ++ [28040; 24687]%N ++ runes_of_ascii """
-]
-:	options1, [""" ++ [28040; 24687]%N ++ runes_of_ascii """ ,
-""it's""
-    , 3
-    , 7
-,
-42 ,""abc""	] :	_x , """"
-    //	t
-    :
-charz ,
-""a\\"" :// trailing space 
-a1
-, //
-} , @tag( 7 ) u8 float ,
-    }
-")).
-Eval vm_compute in ("<<<M3792>>>" ++ check (runes_of_ascii "
-root
-	packet//
-len	{char[ 
-1 ]
-
-    As
-
-,	i64
-	T	@lengthOf(
-
-u8x
-)`u8 x,`
-,
-
-    repeat
-
-    int16
-    /// triple
-// " ++ [128512]%N ++ runes_of_ascii " emoji
-  i8i8 `" ++ [233]%N ++ runes_of_ascii "`  , @tag(
-
-    42 )  match  chars as calculatedFrom  { [
-	""a\\"",
-
-0	]  : 	 // " ++ [27880; 37322]%N ++ runes_of_ascii "
-  trueish
-	3
-:
-
-    BodyLength  ""{,}""
-	: 
-len
-
-    } , // a // b
-	repeat
-
-    zchar[ 4294967296  ]A
-    ``	,
-	repeat char uint8x
-    `it's`
-	, }
-
-packet// " ++ [27880; 37322]%N ++ runes_of_ascii "
-  x_y_z
-{@lengthOf(	matchKey
-    )
-
-    @tag(	3 )  @calculatedFrom( 
-""\" ++ [233]%N ++ runes_of_ascii """	)
-
-    string
-	lengthOf
-    @calculatedFrom(
-    """ ++ [233]%N ++ runes_of_ascii "t" ++ [233]%N ++ runes_of_ascii """
-)
-	,
-} root
-	packet  //
-    int  
-      // trailing space 
-    // packet A { u8 x, }
-  {
-	repeat BodyLength{match
-Pad as
-chars{ [
-""`tick`""
-
-    ]
-
-    :
-    // a // b
-	zchar
-    ,	[
-""" ++ [28040; 24687]%N ++ runes_of_ascii """,""CRC32""
-
-    ,
-""// no comment"" ]
-    : repeatCount	,	1
-:
-metadata  ,
-
-    3	:
-	As,
-3:
-lengthOf
-} ,
-	u32
-    A // " ++ [27880; 37322]%N ++ runes_of_ascii "
-    	`// not a comment`	,
-	//x
-
-//x
-      f64 stringy @lengthOf(
-	As  )`" ++ [233]%N ++ runes_of_ascii "`
-
-,
-	o
-, }
-	,
-
-    }
-packet
-	zchar  {}
-// c
-")).
-Eval vm_compute in ("<<<M3825>>>" ++ check (runes_of_ascii "root
-    packet
-    options1 //	t
-
-{
-
-    @lengthOf( Packet
-
-    ) 
-	    //x
-    //	t
-  repeat
-chars  // " ++ [128512]%N ++ runes_of_ascii " emoji
-	{
-repeatCount
-u128,match u as BodyLength 	 /// triple
-		{	[
-
-65535 ] :
-    // trailing space 
-	  //x
-  	packetx  // a // b
-	, 
-3
-
-    :
-zchar
-
-    , 255
-
-    :  roots  """ ++ [233]%N ++ runes_of_ascii "t" ++ [233]%N ++ runes_of_ascii """	// c
-		:
-Header} ,	i64 Packet 
-, 
-char[]
-    uint8x	@calculatedFrom(  ""// no comment"" )	`crlf
-line`
-,
-    }
-	,  string 
-trueish  , @leftPad (
-' '
-    ) 
-i8i8
-	{ 	 /// triple
-    float64
-	T
-	@lengthOf(
-
-    leftPad ) ,  // @lengthOf(
-    u128 `" ++ [233]%N ++ runes_of_ascii "` ,  lengthOf
-    ,// a // b
-  matchKey
-    ,  }, 
-repeat
-
-    char[	1] MetaDataX
-	`a\`
-,
-    // c
-  // " ++ [128512]%N ++ runes_of_ascii " emoji
-@calculatedFrom( 
-""1""
-
-)
-    string
-chars `it's` ,
-
-    char[] calculatedFrom @lengthOf(  calculatedFrom )`doc` 
-, rootA 	 // @lengthOf(
-  _x 
-	// `tick` ""quote"" 'q'
-	/// triple
-	`" ++ [28040; 24687; 31867; 22411]%N ++ runes_of_ascii "` 
-, } 
-MetaData	calculatedFrom {
-u
-
-    tag `
-`,
-
-    } ")).
-Eval vm_compute in ("<<<M3501>>>" ++ check (runes_of_ascii "options {
-    LittleEndian = true;
-    StringPrefixLenType = u32;
-    FixedStringPadChar = '0';
-}
-packet Logout {
-    repeat InMsgkind49 {
-        u8 pad0,
-    },
-    repeat char[5] seqNo,
-    repeat u8 price,
-}
-packet Party {
-    zchar[7] Qty,
-}
-packet Logon {
-    repeat InRef10 {
-        string price,
-        char[] sym,
-        repeat Logout,
-    },
-    repeat char[3] count,
-    repeat Party,
-    char[] tag7,
-    @rightPad('0') char[2] clOrdID,
-}
-packet Order {
-    InTail13 {
-        Party,
-    },
-    repeat char[4] count,
-}
-root packet Cancel {
-    Logout,
-    @leftPad('0') char[9] msgKind,
-    string lastPx,
-    string tag7,
-    zchar[1] OrderId,
-    repeat Party,
-    u16 sym,
-    u16 Acct @lengthOf(Body),
-    match sym as Body {
-        [24, 44] : Logout,
-        160 : Order,
-        91 : Logon,
-        43 : Party,
-    },
-    u16 Tail @calculatedFrom(""CRC32""),
-}
-")).
-Eval vm_compute in ("<<<M381>>>" ++ check (runes_of_ascii "MetaData// " ++ [128512]%N ++ runes_of_ascii " emoji
-A  { repeatCount f32a `it's`  ,} root packet rootA { @lengthOf(
-//
-// trailing space 
-Foo ) @rightPad ('0'	)
-@calculatedFrom(
-""{,}"" ) int16 u8x ,
-    @leftPad (	' ' //	t
-) @calculatedFrom( // c
-""it's""
-) f64 metadata `two words`
-    , //x
-char[] T `{ , }` ,}
-    packet crc{ int8 float @lengthOf( u
-    // @lengthOf(
-    )`" ++ [28040; 24687; 31867; 22411]%N ++ runes_of_ascii "`
-    //x
-    , // " ++ [128512]%N ++ runes_of_ascii " emoji
-string options1  `
-`	,
-    @calculatedFrom(
-""x y"" )
-x_y_z o , /// triple
-@tag( 007	)  a1
-@calculatedFrom( ""a\\"" ) ,
-}
-    root
-    packet Foo
-    { repeat i16 chars ,Logon @calculatedFrom(""\" ++ [233]%N ++ runes_of_ascii """ )  ,
-@calculatedFrom(
-""packet""  )
-    x_y_z
-// packet A { u8 x, }
-// trailing space 
-`say ""hi""` ,
-repeat string
-Foo
-, repeat metadata
-i8i8`crlf
-line`
-// packet A { u8 x, }
-// @lengthOf(
-,@calculatedFrom(
-    ""a	b"" ) char[] charz @calculatedFrom(""""
-    )
-    ,}
-")).
-Eval vm_compute in ("<<<M3516>>>" ++ check (runes_of_ascii "options {
-    LittleEndian = true;
-    StringPrefixLenType = u64;
-    ArrayPrefixLenType = u8;
-    FixedStringPadChar = '0';
-}
-packet Reject {
-    i32 Ref,
-    repeat f64 OrderId,
-    repeat InNote12 {
-        u8 pad0,
-    },
-    @leftPad(' ') char[6] count,
-}
-packet Logout {
-    zchar[6] Tail,
-    repeat string venue,
-}
-packet Cancel {
-    u64 count,
-    repeat char[5] lastPx,
-    i64 Tail,
-    repeat InF140 {
-        repeat Logout,
-        repeat Reject,
-    },
-}
-root packet Trade {
-    repeat InMsgkind39 {
-        repeat Reject,
-        char[4] Px,
-    },
-    string Acct,
-    uint16 price,
-    f32 OrderId,
-    u16 x,
-    u16 clOrdID @lengthOf(Body),
-    match x as Body {
-        178 : Logout,
-        13 : Cancel,
-        174 : Reject,
-    },
-    u16 Flags @calculatedFrom(""CRC32""),
-}
-")).
-Eval vm_compute in ("<<<M3522>>>" ++ check (runes_of_ascii "
-options
-	{ 
-LittleEndian=
-
-false; StringPrefixLenType=
-    u16
-; ArrayPrefixLenType
-
-    =
-	u64
-; 
-FixedStringPadFromLeft =true ; FixedStringPadChar  =
-' '
-;	}
-packet
-Logon  {  u16
-Tail
-    ,	repeat string
-	x ,
-
-    i16
-    count  ,
-@leftPad (  '0'
-    )char[ 3  ]
-
-    Note
-,
-}
-    packet  Fill {
-}
-    packet Heartbeat{ } packet
-Reject 
-{ string
-msgKind,
-repeat
-
-Logon
-, InFlags25
-{
-repeat InPrice29	{
-u8
-price
-,
-Logon
-,
-    repeat
-	char[1]
-
-Note 
-, }
-
-,
-
-char[] 
-x , Fill
-    ,
-	} ,repeat  Heartbeat ,
-
-    } root  packet  Order{	InNote88
-{
-repeat
-i32  Acct ,
-    repeat
-    i16 
-clOrdID
-,
-	repeat
-Logon ,  } ,
-	u16
-tag7 ,	match
-    tag7
-as
-    Body{
-	[ 14 , 22
-]
-
-:	Logon
-,
-	55 
-:	Heartbeat,93 :
-	Reject ,13
-    :Fill  , } , }
-")).
-Eval vm_compute in ("<<<M1011>>>" ++ check (runes_of_ascii "root	packet
-_x { falsey, } packet BodyLength
-{
-    /// triple
-    float32 u ,@calculatedFrom( ""a\\""  ) roots @lengthOf(
-x_y_z) , options1 Pad
-`u8 x,`,
+    `doc` , // `tick` ""quote"" 'q'
+charz
+    @lengthOf( repeatCount  ), i8 metadata @lengthOf( body )
+    `{ , }` ,
 @tag(
-0 )
-    char[ 1
-]T
-    , }  packet u128 { repeat
-u8
-// " ++ [128512]%N ++ runes_of_ascii " emoji
-//
-x, match
-    u8x as //	t
-u8x
+    // `tick` ""quote"" 'q'
+    0123456789
+    ) repeat
+x_y_z lengthOf
+, @calculatedFrom(""{,}"" ) options1 { match metadata
+as chars  {""// no comment"": matchKey ,} , } , Z9_
+// trailing space 
+// @lengthOf(
+`` , repeat i64_``,  @tag( 42) uint8	chars @calculatedFrom(""abc"" ) , }MetaData charz
+{ char[]Packet
+, i64 string_
+    `{ , }` , // " ++ [128512]%N ++ runes_of_ascii " emoji
+int64 a1`tab	here`, }
+packet
+    matchKey//	t
 {
-    """" : float[
-0123456789 ] : pack , }
-,
+    repeat x {string
+    // c
+    Logon`doc`
+    , } ,repeat
+u32// trailing space 
+chars
+    ,@calculatedFrom( // c
+""`tick`"") o falsey `say ""hi""` ,zchar[	007  ]string_ @lengthOf(Header ) `line1
+line2`
+    // trailing space 
+    ,match  x as uint8x {1 //
+:a1  ,  [ ""a	b"" , 42 ,
+65535 ]
+: T ,
+""" ++ [28040; 24687]%N ++ runes_of_ascii """ : metadata
+// packet A { u8 x, }
+// c
+, }
+    , match Z9_
+as	msg_type // a // b
+{ 65535: //	t
+u ,[
+// " ++ [128512]%N ++ runes_of_ascii " emoji
+// c
+7 ,
+    7// trailing space 
+, 42
+,""" ++ [28040; 24687]%N ++ runes_of_ascii """ ]
+    :
+asx ,""" ++ [233]%N ++ runes_of_ascii "t" ++ [233]%N ++ runes_of_ascii """ : _x,[
 // `tick` ""quote"" 'q'
 // " ++ [27880; 37322]%N ++ runes_of_ascii "
-repeat
-float32 lengthOf, // packet A { u8 x, }
-}packet
-    //
-    Header { match	len // " ++ [27880; 37322]%N ++ runes_of_ascii "
-as	Foo
-    { [
-    42 , 4294967296	,
-    ""a	b"" ] :int 0  : u128 , [ ""\n"" ,
-    42 ]: Foo , 3 :  float
-,[ ""a\\"" ,	""`tick`""// " ++ [27880; 37322]%N ++ runes_of_ascii "
-, // packet A { u8 x, }
-""// no comment"", 7, 3	] : x
-, [ 65535 , ""a\\""
-    // packet A { u8 x, }
-    ,	""a\\"" , ""it's""
-    , """ ++ [28040; 24687]%N ++ runes_of_ascii """ , ""a\""b"" , ""{,}""]
-    : msg_type , } ,
-}
-")).
-Eval vm_compute in ("<<<M803>>>" ++ check (runes_of_ascii "packet int { Packet{ match x  as asx	{	""" ++ [233]%N ++ runes_of_ascii "t" ++ [233]%N ++ runes_of_ascii """:
-    //	t
-    i64_
-1 : /// triple
-o 255
-    : MetaDataX// packet A { u8 x, }
-""\n""
-    : chars ,
-}// packet A { u8 x, }
-, } , pack rootA
+255 ] : metadata , }// `tick` ""quote"" 'q'
+, float32 len	, repeat
+    len , @tag( 007
+    ) repeat f64
+pack
+    // trailing space 
     ,
-zchar[
-// a // b
-// " ++ [27880; 37322]%N ++ runes_of_ascii "
-1
-] T ,
-    } packet u{
-    zchar `tab	here` , zchar[ 255
-    ]metadata ,repeat _x{// " ++ [128512]%N ++ runes_of_ascii " emoji
-zchar
-{ f32a repeatCount
+} packet stringy
+    {
+// trailing space 
 // packet A { u8 x, }
-// packet A { u8 x, }
-`it's` //
-,  }
+@lengthOf(As
+    ) @calculatedFrom(  ""\" ++ [233]%N ++ runes_of_ascii """ )@tag(
+7 ) u8 x_y_z@lengthOf( pack
+) `crlf
+line` ,
+uint8 chars `doc`
 ,
-} ,// @lengthOf(
-@leftPad // packet A { u8 x, }
-(  ' ' )  x_y_z	@calculatedFrom( // `tick` ""quote"" 'q'
-""{,}"" ) `{ , }`
-    , repeat
-A a1 `u8 x,`, Foo @calculatedFrom( ""{,}""),}packet Pad {
-@tag( 7 ) @lengthOf( // c
-stringy ) @calculatedFrom(""" ++ [28040; 24687]%N ++ runes_of_ascii """  ) repeat
-    stringy ,
-char
-crc,
-    }
-")).
-Eval vm_compute in ("<<<M452>>>" ++ check (runes_of_ascii "  packet BodyLength{
-}
-options {} packet uint8x { } packet chars {
-@tag( //x
-007)
-pack { stringy
-`doc` , match
-    f32a as  calculatedFrom{
-[""a	b""
-, 00 // c
-,
-007 ,""a	b"" ]
-:
-u8x }  ,} , f32 options1@lengthOf(
-leftPad ) , @calculatedFrom(
-    ""packet""
-) leftPad
-, // `tick` ""quote"" 'q'
-char stringy//x
-, char[] A @calculatedFrom( // " ++ [27880; 37322]%N ++ runes_of_ascii "
-""abc""
-) ,  @tag(0	) char[
-    4294967296] int @calculatedFrom( /// triple
-""x y""	)
-, repeat
-x
-{ stringy @calculatedFrom(	""packet"" )
-`tab	here`
-    , i16 asx
-    `" ++ [233]%N ++ runes_of_ascii "` ,
-f32a ,tag
-    @calculatedFrom(  """" )`" ++ [233]%N ++ runes_of_ascii "` ,}, u32
-    // a // b
-    Header
-, repeat f32a u128 `{ , }` , }options { pack = false ; }
-")).
-Eval vm_compute in ("<<<M1015>>>" ++ check (runes_of_ascii "packet asx	{ options1 @calculatedFrom(
-    """ ++ [128512]%N ++ runes_of_ascii """ )
-,A // " ++ [128512]%N ++ runes_of_ascii " emoji
-u, char[ 1 ]body,
-} MetaData u // a // b
-{
-    zchar[ // packet A { u8 x, }
-1 // @lengthOf(
-]	options1 ,
-    } packet falsey {repeat
-Foo { zchar[4294967296 // " ++ [27880; 37322]%N ++ runes_of_ascii "
-]  charz
-@lengthOf(
-    roots )
+@calculatedFrom(""CRC32""	)
+@leftPad ( '0'	)
+    // @lengthOf(
+    @lengthOf(  leftPad ) match packetx
 // @lengthOf(
-//	t
-,} //	t
-, float , @lengthOf(	u8x )
-    @calculatedFrom(
-    ""{,}"" ) @leftPad	( '0'
-)repeat	u128
-    MetaDataX  `u8 x,` , @tag( 255 )@rightPad // a // b
-()
-    repeat calculatedFrom{ repeat string f32a // trailing space 
-, match
-// " ++ [27880; 37322]%N ++ runes_of_ascii "
 // " ++ [128512]%N ++ runes_of_ascii " emoji
-_x as x {""a	b""
-    : A , }, float32 zchar `
-` , string string_//x
-`line1
-line2` , } ,
+as
+float	{[ ""// no comment"" ,
+007 ] :msg_type
+    , //	t
+1 // packet A { u8 x, }
+:
+    rootA
+, 7 : lengthOf // " ++ [128512]%N ++ runes_of_ascii " emoji
+,	[ // a // b
+""" ++ [128512]%N ++ runes_of_ascii """ ] :
+x , [ //
+42  , // `tick` ""quote"" 'q'
+65535 ]:// " ++ [27880; 37322]%N ++ runes_of_ascii "
+falsey ,// " ++ [27880; 37322]%N ++ runes_of_ascii "
 }
+//	t
+// packet A { u8 x, }
+, char[1 ] lengthOf @lengthOf(metadata	),u8 crc @calculatedFrom(
+""" ++ [128512]%N ++ runes_of_ascii """
+) `say ""hi""` , }
 ")).
-Eval vm_compute in ("<<<M3262>>>" ++ check (runes_of_ascii "// top
-MetaData // c0
-x_y_z // c1a
-  // c1b
-{ // c2
-char // c3a
-  // c3b
-body // c4
-, // c5a
-  // c5b
-f64 // c6
-i8i8 // c7a
-  // c7b
-`two words` // c8
-, // c9a
-  // c9b
-body // c10
-body `" ++ [28040; 24687; 31867; 22411]%N ++ runes_of_ascii "`
-    // c12
-, } // c14a
-  // c14b
-root packet chars // c17a
-  // c17b
-{
-    // c18
-@lengthOf( // c19a
-  // c19b
-i64_ // c20a
-  // c20b
-) chars , // c23a
-  // c23b
-i8i8
-    // c24
-{ // c25a
-  // c25b
-falsey
-    // c26
-@lengthOf( stringy ) // c29a
-  // c29b
-`doc` ,
-    // c31
-} // c32
-, x @lengthOf( // c35a
-  // c35b
-A // c36
-) // c37a
-  // c37b
+Eval vm_compute in ("<<<M432>>>" ++ check (runes_of_ascii "packet rootA
+{ @rightPad ( '0' ) string
+leftPad	@calculatedFrom(
+""" ++ [233]%N ++ runes_of_ascii "t" ++ [233]%N ++ runes_of_ascii """ )
+    `two words` , } packet // a // b
+A{ @calculatedFrom( ""it's""	) char[] // @lengthOf(
+msg_type
+@lengthOf( asx ) `u8 x,` ,charz
+    o ,@calculatedFrom(""`tick`"" )
+    @lengthOf( // @lengthOf(
+crc
+// " ++ [27880; 37322]%N ++ runes_of_ascii "
+// trailing space 
+)
+    //
+    match // " ++ [128512]%N ++ runes_of_ascii " emoji
+falsey as metadata	{
+    // @lengthOf(
+    [
+65535
+, 65535
+] :u8x
+, ""\n""
+// @lengthOf(
+// @lengthOf(
+: int // " ++ [128512]%N ++ runes_of_ascii " emoji
+,
+    007 :MetaDataX,
+    ""it's""
+: f32a ,
+    0
+:
+    i8i8 , [
+65535
+, 255 ] : u8x
+,} ,
+    }	packet charz { string
+MetaDataX// a // b
+,
+    // packet A { u8 x, }
+    repeat	char[] _x,
+@rightPad(
+)
+    match pack as
+    //	t
+    string_ {""a	b""	: trueish ,
+""it's""
+// trailing space 
+//
+: A 10 :
+    T
+0
+:// trailing space 
+msg_type,
+    [ 7 ,
+    1 , ""1"" ,// `tick` ""quote"" 'q'
+00// " ++ [27880; 37322]%N ++ runes_of_ascii "
+, 10  ,4294967296
+,
+10 ]: Pad, }
+,// a // b
+A {
+repeat u128
+    { char[ 00 ] a1  `line1
+line2`, //x
+uint8x rootA `say ""hi""` , match uint8x as i64_
+{""" ++ [28040; 24687]%N ++ runes_of_ascii """
+: msg_type	,  ""\n"" : i8i8, } ,
+i64 x_y_z `{ , }` ,}
+// a // b
+// a // b
+, match zchar
+//	t
+// c
+as Header{	3
+:
+    pack	, ""x y"" :packetx ,
+    //x
+    255  : u8x, ""abc"": Z9_ ,""x y"" :
+msg_type [""a\\""
+    ,
+    10 // @lengthOf(
+] // `tick` ""quote"" 'q'
+:	o } , char[
+    // `tick` ""quote"" 'q'
+    0 ]
+    leftPad `{ , }`, string stringy
+@calculatedFrom(
+    ""`tick`""
+)
+    `u8 x,` ,  }, repeat zchar[ 00] // packet A { u8 x, }
+Packet ,repeat u16
+tag , @tag(65535  ) repeat uint64
+    MetaDataX , } MetaData pack { }")).
+Eval vm_compute in ("<<<M490>>>" ++ check (runes_of_ascii "root
+//
+// c
+packet
+As
+    { @calculatedFrom( ""{,}"" )
+// packet A { u8 x, }
+// @lengthOf(
+Header { repeat uint8 uint8x
+// a // b
+// @lengthOf(
+`// not a comment` ,
+    } ,@tag(3 ) repeat i64 i64_
+`it's`
+// a // b
+//	t
+, @lengthOf( i8i8
+// `tick` ""quote"" 'q'
+// trailing space 
+)  repeat i64
+    //x
+    metadata,repeat i8
+chars`a\`
+    // " ++ [27880; 37322]%N ++ runes_of_ascii "
+    , repeat zchar[ //x
+4294967296 ] x_y_z	, @leftPad( '0' /// triple
+)  char[ 42 ] options1, repeat
+o
+    , } root packet float {
+}	packet Packet {uint8x roots
+,
+zchar[ 0123456789 ]
+    msg_type `a\`, @calculatedFrom( """ ++ [233]%N ++ runes_of_ascii "t" ++ [233]%N ++ runes_of_ascii """
+)
+//
+// trailing space 
+repeat Packet {
+repeat int64 T  , repeat zchar[ 1 ]
+falsey`it's` ,
+    match leftPad as f32a {
+    // " ++ [128512]%N ++ runes_of_ascii " emoji
+    ""a\""b""
+:MetaDataX , [ 65535 ]
+    :
+rootA
+    , } , } , @tag(007 ) repeat char[
+4294967296//x
+] Z9_ , string Packet@calculatedFrom(
+""CRC32""  ) `u8 x,` ,} root
+    packet
+    x
+    {
+pack tag//x
+``, // `tick` ""quote"" 'q'
+}
+packet Z9_ { char[] BodyLength
+,
+    zchar @lengthOf( x  )	`" ++ [28040; 24687; 31867; 22411]%N ++ runes_of_ascii "`,
+uint8 float
+    // @lengthOf(
+    ,
+i64 u8x
+    , @lengthOf(
+leftPad
+)
+    //
+    int @lengthOf( lengthOf ) , zchar { zchar[ 0 ] Z9_ ,
+} ,
+float // `tick` ""quote"" 'q'
 `crlf
 line`
-    // c38
-, } // c40a
-  // c40b
-")).
-Eval vm_compute in ("<<<M3626>>>" ++ check (runes_of_ascii "MetaData zchar {
-}
+, repeat Z9_ {  repeat options1 , i32 As
+,string stringy @lengthOf(
+leftPad
+// a // b
+// a // b
+)`" ++ [28040; 24687; 31867; 22411]%N ++ runes_of_ascii "` , } , char[10 ] x , int ,} // c")).
+Eval vm_compute in ("<<<M4238>>>" ++ check (runes_of_ascii "packet	_x
+	{ repeat
 
-packet Packet {
-    u16 x @calculatedFrom(""" ++ [28040; 24687]%N ++ runes_of_ascii """) ``,
-    @tag(7)
-    @tag(00)
-    Packet u128,
-    @lengthOf(float)
-    match A as charz {
-        00 : x,
-        [0, 255, 10, ""it's""] : Packet,
-        ""a\\"" : metadata,
-        [10, ""`tick`""] : chars,
-        [""a\""b""] : trueish,
-    },
-    uint64 string_,
-    @rightPad(' ')
-    float64 stringy `line1
-    line2`,
-    @tag(00)
-    uint16 As,
-}//	t
+o
+int
 
-options {
-    Logon = false;
-    // a // b
-    body = f64;
-}
-
-MetaData asx {
-}
-
-packet leftPad {
-    float @lengthOf(A) `a\`,
-}")).
-Eval vm_compute in ("<<<M3475>>>" ++ check (runes_of_ascii "packet A // c1a
-  // c1b
-{
-    // c2
-u8 // c3a
-  // c3b
-a
-    // c4
-,
-    // c5
-} // c6a
-  // c6b
-packet
-    // c7
-B // c8
-{
-    // c9
-u16
-    // c10
-b // c11a
-  // c11b
-, } root
-    // c14
-packet P
-    // c16
-{ // c17
-u8 K , // c20
+, 
 match
-    // c21
-K // c22
-as // c23
-M
-    // c24
-{
-    // c25
-[
-    // c26
-1 // c27a
-  // c27b
-, 2 ] // c30
-:
-    // c31
-A
-    // c32
-, // c33a
-  // c33b
-3
-    // c34
-: // c35a
-  // c35b
-B , // c37
-7 : // c39a
-  // c39b
-A // c40
+	int
+as Logon
+{""packet""
+    :
+        // a // b
+	  // packet A { u8 x, }
+
+  string_
+
+}
+
 ,
-    // c41
-}
-    // c42
-, // c43a
-  // c43b
-}
-    // c44
-")).
-Eval vm_compute in ("<<<M1393>>>" ++ check (runes_of_ascii "MetaData T {
-//
+	@leftPad ( 
+'0' )	zchar[  1
+] asx
+,
+
+    } 	 // @lengthOf(
+	packet
+    leftPad{
+}root packet	i8i8{
+
+@calculatedFrom(
+	""it's""	)_x
+len 	 // " ++ [27880; 37322]%N ++ runes_of_ascii "
+		`crlf
+line`,
+
+    }
+root  packet
+
+    rootA	{char[] rootA  @lengthOf(
+leftPad	)
+	`u8 x,`,
+match
+
+    falsey
+
+    as calculatedFrom { 42 : 
+Foo
+
+    }
+
+,
+repeat Z9_ {
+    uint16
+
+    _x	// " ++ [128512]%N ++ runes_of_ascii " emoji
+	`doc`
+    ,zchar[  // `tick` ""quote"" 'q'
+		42	// " ++ [128512]%N ++ runes_of_ascii " emoji
+  ]
+    u8x
+
+    , repeat
+    zchar[ 
 // @lengthOf(
-u64 BodyLength `say ""hi""` , i16
-a1,
-    int64 msg_type `// not a comment`
-, x_y_z zchar,u64
-T, float32 calculatedFrom
-,
-    } packet Logon{ @lengthOf( options1 )
-    int64 x @lengthOf(
-Z9_ )  `{ , }`,} packet
-    lengthOf{
-    // `tick` ""quote"" 'q'
-    @calculatedFrom(""`tick`"" ) A // `tick` ""quote"" 'q'
-`" ++ [233]%N ++ runes_of_ascii "`// `tick` ""quote"" 'q'
-, falsey lengthOf , @lengthOf( x_y_z)  @lengthOf( options1 ) char[ 4294967296
-    ]
-body @calculatedFrom( """ ++ [28040; 24687]%N ++ runes_of_ascii """)
-    // c
-    ,}
-")).
-Eval vm_compute in ("<<<M1046>>>" ++ check (runes_of_ascii "packet  Packet{ float64 x
-@calculatedFrom( ""a\""b"" )
-`u8 x,`
-,
-@rightPad ( '\x00' )
-    @rightPad
-(
-    // " ++ [128512]%N ++ runes_of_ascii " emoji
-    '0' ) @leftPad (
-    ' '
-    ) char[]
-    _x ,	Packet @lengthOf(
-// a // b
-// a // b
-crc ) , repeat float64 leftPad
-    `
-`
-,
-    @leftPad	(
-    '0') matchKey @calculatedFrom( ""{,}"")
-,
-    repeat  body int,
-u16 o, }
-    options{
-A =
-    true leftPad= char[	4294967296 ] ; T  = float64 // trailing space 
-; options1 =
-/// triple
-// a // b
-65535 ; }")).
-Eval vm_compute in ("<<<M805>>>" ++ check (runes_of_ascii "packet
-charz { @lengthOf(
-Z9_ ) @leftPad ( )	@tag(
-    7 )char[] metadata, repeat
-    float asx ,
-i8 a1 @calculatedFrom( ""a\\"" )  ,
-    leftPad
-@calculatedFrom( """ ++ [128512]%N ++ runes_of_ascii """ )	`doc` , uint16	trueish `u8 x,`, //x
-match
-    Logon as pack { 42	:  tag ,	0:falsey
-, [ 3 // c
-,	1
-//	t
+  	// c
+
+42
+    /// triple
+	  // " ++ [27880; 37322]%N ++ runes_of_ascii "
+] Z9_
+	`// not a comment` , }	// trailing space 
+	,
+
+    string  //
+T  ,
+	u8x  i8i8
+	,
+	@calculatedFrom(""CRC32""  ) u64 zchar
+    ,
+    //
 // " ++ [128512]%N ++ runes_of_ascii " emoji
-]: x_y_z // `tick` ""quote"" 'q'
-, }  ,
-repeat
-// `tick` ""quote"" 'q'
-// trailing space 
-leftPad{
-char[]
-    leftPad  `tab	here`
-    , char[ 42 // a // b
-] x_y_z, } , }")).
-Eval vm_compute in ("<<<M4501>>>" ++ check (runes_of_ascii "MetaData Logon {
-    zchar[3] a1 `" ++ [28040; 24687; 31867; 22411]%N ++ runes_of_ascii "`,
-    char[007] MetaDataX `a\`,
-}
+	}packet
+	Packet {
+repeat  Z9_	int ,
+	int16
+asx
 
-root packet pack {
-}
+    `// not a comment`
+    , @lengthOf(options1
+)  repeat
 
-packet i64_ {
-    @lengthOf(chars)
-    len {
-        uint8 rootA `doc`,
-        string_ `crlf
-        line`,//	t
-        match charz as Foo {
-            42 : options1,
-            [255] : charz,
-        },
-    },
-    roots repeatCount `two words`,
+int8
+
+As
+
+    `" ++ [233]%N ++ runes_of_ascii "` 	 // @lengthOf(
+  ,
+@leftPad(
+
+'\x00'
+        // " ++ [27880; 37322]%N ++ runes_of_ascii "
+
+//	t
+  	)
+	o
+    {
+repeat 
+	//
+	rootA
+	`crlf
+line` 
+    //x
+  ,
+	Packet ,
+} , @calculatedFrom(
+	""`tick`""
+	    //
+)
+@lengthOf(	T
+
+)
+
     //	t
-    string Logon @calculatedFrom(""a\""b""),
-    @calculatedFrom(""a\\"")
-    Z9_,
-}//x")).
-Eval vm_compute in ("<<<M1033>>>" ++ check (runes_of_ascii "packet Pad /// triple
-{i16  A @calculatedFrom(
-""a\""b"" ) ,}
-    packet roots{ @tag(// trailing space 
-65535 )repeat f32a{
-    char[ 00] a1 @calculatedFrom( ""a\\"" ) , float32
-x_y_z , len // packet A { u8 x, }
-{
-// `tick` ""quote"" 'q'
-// c
-stringy
-    u8x `
+    repeatCount
+_x
+
+, _x
+
+    {	i16	x_y_z@lengthOf(
+a1)
 `
+` 
+,
+    } 
+    // packet A { u8 x, }
+      //
+,
+	}")).
+Eval vm_compute in ("<<<M275>>>" ++ check (runes_of_ascii "options { u =""a\""b""
+//	t
+//
+;
+    Z9_ =""// no comment"" ; tag
+    // " ++ [27880; 37322]%N ++ runes_of_ascii "
+    =7 } root packet
+    // trailing space 
+    As { }
+packet Header { @lengthOf(
+    Foo )  rootA
+@calculatedFrom( ""\" ++ [233]%N ++ runes_of_ascii """ ) , @calculatedFrom( ""CRC32""// a // b
+)
+    float64 crc
+,  repeat char[ // packet A { u8 x, }
+007
+] Logon , //
+@tag( 7
+    )
+//
+// c
+@calculatedFrom( ""{,}"" ) @lengthOf( stringy
+) match //	t
+A as
+// " ++ [128512]%N ++ runes_of_ascii " emoji
+// `tick` ""quote"" 'q'
+f32a {
+    // `tick` ""quote"" 'q'
+    [""a\\""
+,	1 , ""CRC32"" , 007 ,	""a	b"" , ""\" ++ [233]%N ++ runes_of_ascii """ ] :trueish, 4294967296
+    :
+// c
+//x
+u8x ,//
+}  ,
+@tag(
+255 ) @lengthOf( u8x
+    )
+@calculatedFrom( ""x y""
+    ) pack { uint16 uint8x
     ,
     }
-//
-// packet A { u8 x, }
-, f32 Foo@calculatedFrom(
-""a\""b""
-) ,
-} ,
-@calculatedFrom(""1""
-) u64	calculatedFrom	,
-    u32 u8x , u32	calculatedFrom
-`` , }
-")).
-Eval vm_compute in ("<<<M4063>>>" ++ check (runes_of_ascii "/// triple
-	packet	Logon
-    { char[
-	1 ] 
-T  // packet A { u8 x, }
-  ,
-
-repeat
-
-    f32a	{	repeat options1
-    ,//x
-zchar[
-007	] Z9_
-
-,u64
-
-    packetx  ,	// @lengthOf(
-charz  ,
-
-    }	, crc Packet,	@lengthOf(
-    charz	//x
-	)	@leftPad
-( ' ' )float64
-	i8i8	`{ , }` 
-  //	t
-	//x
-
+, match
+leftPad as
+asx {""{,}"" : T 007
+    //	t
+    : // @lengthOf(
+_x
+    1  : options1
 ,
-}
-MetaData 	 // a // b
-a1{ u8
-
-len `say ""hi""`, 
-len Logon 	 //x
-``
-
-, char[]
-
-pack
-
-    , char
-body ,} ")).
-Eval vm_compute in ("<<<M1284>>>" ++ check (runes_of_ascii "root packet
-Foo{ uint8x @lengthOf(// " ++ [128512]%N ++ runes_of_ascii " emoji
-zchar ) // `tick` ""quote"" 'q'
-,body { repeat zchar[
-4294967296 ]
-    tag , }
-, int8 _x
-`u8 x,`
-    , char[]
-T , Foo
-, @rightPad ( ' '
-    // packet A { u8 x, }
-    )	repeat uint8 stringy
-    ,zchar[ 255] calculatedFrom@calculatedFrom(""x y"") `" ++ [28040; 24687; 31867; 22411]%N ++ runes_of_ascii "` , float32
-len @lengthOf(
-// " ++ [27880; 37322]%N ++ runes_of_ascii "
-// `tick` ""quote"" 'q'
-i8i8 ) , uint32
-    Pad ,
-    }")).
-Eval vm_compute in ("<<<M364>>>" ++ check (runes_of_ascii "packet string_{ repeat
-crc {
-As
-@calculatedFrom( ""// no comment"" ) `" ++ [28040; 24687; 31867; 22411]%N ++ runes_of_ascii "` // trailing space 
-,char x_y_z @lengthOf( Header )
-    `u8 x,`
-, } ,} root packet u128{ stringy// a // b
-@lengthOf( options1 ) , } packet i64_
+    [ 42	,007]// a // b
+:calculatedFrom
+, """ ++ [233]%N ++ runes_of_ascii "t" ++ [233]%N ++ runes_of_ascii """ :
+    lengthOf } ,
+    u8x {int64 charz
+`line1
+line2`,
+} , repeat
+    //x
+    Header BodyLength `
+`  ,
+@rightPad  ( // `tick` ""quote"" 'q'
+'\x00' ) @lengthOf( tag )
+    match o // trailing space 
+as
+    uint8x {
+[ 255 ] :
+_x ,1 :
+    matchKey ,
 // " ++ [128512]%N ++ runes_of_ascii " emoji
-// `tick` ""quote"" 'q'
-{ @lengthOf( u128 )
-@lengthOf(pack
-) char[ 4294967296
-] falsey@calculatedFrom( """ ++ [233]%N ++ runes_of_ascii "t" ++ [233]%N ++ runes_of_ascii """
+//x
+65535
+:
+// c
+// @lengthOf(
+tag
+,  0123456789: zchar,
+""a\\"" :metadata
+    ,
+    }	, }
+")).
+Eval vm_compute in ("<<<M571>>>" ++ check (runes_of_ascii "root
+    packet
+BodyLength // `tick` ""quote"" 'q'
+{x_y_z
+@calculatedFrom(""" ++ [233]%N ++ runes_of_ascii "t" ++ [233]%N ++ runes_of_ascii """)
+    //x
+    , //	t
+@lengthOf( A
+    )int8	options1`u8 x,`
+, @rightPad ( )
+// " ++ [128512]%N ++ runes_of_ascii " emoji
 // " ++ [27880; 37322]%N ++ runes_of_ascii "
+repeat
+zchar[1 ]// " ++ [128512]%N ++ runes_of_ascii " emoji
+asx//	t
+`
+` ,
+i8i8@lengthOf( asx) `it's` ,
+uint64 i8i8
+    , int32
 // trailing space 
-),
+// @lengthOf(
+Packet @lengthOf(  x_y_z  )
+,	@tag(1 )	repeat uint8 len
+    , char[] matchKey ,char[
+7  ] chars
+    @calculatedFrom( """ ++ [233]%N ++ runes_of_ascii "t" ++ [233]%N ++ runes_of_ascii """
+), } packet i8i8 { match body
+as	repeatCount { [ ""a\\"",""// no comment"",0123456789 , ""x y"",""// no comment"", 7 , 1  ]:
+Foo 007 : T,[
+""a\""b"" , 0] : BodyLength ,
+    } ,	repeat Z9_ {
+charz @calculatedFrom(""\n"" )
+`tab	here` , // `tick` ""quote"" 'q'
+repeatCount Pad `tab	here`, i32 asx @lengthOf(
+i64_ )
+    ,  }
+    , } packet uint8x
+    {
+@calculatedFrom(""" ++ [233]%N ++ runes_of_ascii "t" ++ [233]%N ++ runes_of_ascii """ )
+zchar[ 0 ] metadata
+, } options{ msg_type= true string_  = 007 a1 = ""// no comment"" ; } MetaData packetx{ BodyLength
+body
+    `line1
+line2`/// triple
+, float tag,x_y_z string_`crlf
+line` , BodyLength f32a`" ++ [28040; 24687; 31867; 22411]%N ++ runes_of_ascii "`
+// a // b
+// packet A { u8 x, }
+,
+    char[ 255
+]  stringy , }
+")).
+Eval vm_compute in ("<<<M3484>>>" ++ check (runes_of_ascii "// top
+packet // c0
+A // c1
+{ // c2a
+  // c2b
+u8 a // c4
+, // c5
+}
+    // c6
+packet // c7
+B
+    // c8
+{ u16
+    // c10
+b // c11
+, }
+    // c13
+packet // c14a
+  // c14b
+C { // c16
+u32 // c17a
+  // c17b
+c // c18
+, // c19
+} // c20a
+  // c20b
+root packet
+    // c22
+M // c23a
+  // c23b
+{
+    // c24
+u16 Kc // c26a
+  // c26b
+, // c27a
+  // c27b
+u16
+    // c28
+Kb // c29
+,
+    // c30
+u16 // c31a
+  // c31b
+Ka // c32a
+  // c32b
+, // c33a
+  // c33b
+match Kc // c35a
+  // c35b
+as
+    // c36
+X // c37
+{ 9 // c39
+: // c40
+A // c41
+, // c42
+10 // c43
+: // c44
+B // c45
+, // c46a
+  // c46b
+} // c47a
+  // c47b
+, match // c49
+Kb
+    // c50
+as Y // c52a
+  // c52b
+{ // c53
+2 // c54a
+  // c54b
+: // c55a
+  // c55b
+C ,
+    // c57
+1
+    // c58
+: // c59a
+  // c59b
+A
+    // c60
+,
+    // c61
+}
+    // c62
+,
+    // c63
+match // c64a
+  // c64b
+Ka // c65
+as // c66a
+  // c66b
+Z { 1 // c69
+: // c70
+B , // c72
+} // c73
+, // c74a
+  // c74b
+A // c75a
+  // c75b
+, // c76
+B // c77a
+  // c77b
+, // c78
+C
+    // c79
+, }
+    // c81
+")).
+Eval vm_compute in ("<<<M1281>>>" ++ check (runes_of_ascii "MetaData Packet  { string leftPad
+,metadata float
+    // `tick` ""quote"" 'q'
+    `` , char[ //x
+1] u `
+`
+    , matchKey
+u128
+`" ++ [28040; 24687; 31867; 22411]%N ++ runes_of_ascii "` , matchKey
+msg_type
+    `say ""hi""` ,
+}
+root
+    packet string_{ @tag(
+1 )
+    //x
+    char[]
+    lengthOf`// not a comment` , @calculatedFrom( ""{,}""//
+)
+    // " ++ [128512]%N ++ runes_of_ascii " emoji
+    match string_ as T { 7 // a // b
+: leftPad, },
+    Logon @lengthOf(
+    stringy ) `crlf
+line` // c
+,@lengthOf( body
+) @tag( 255	)
+//
+// trailing space 
+repeat f32a	, uint32 f32a// c
+@lengthOf( asx
+)
+,
+    repeat char Packet , @leftPad (	' ' ) f32 leftPad ,  @tag(7
+) repeat Header , } packet x_y_z{ match /// triple
+u8x as leftPad
+    {
+4294967296 :crc
+    , ""\" ++ [233]%N ++ runes_of_ascii """ :
+matchKey , } ,
+    // " ++ [128512]%N ++ runes_of_ascii " emoji
+    @calculatedFrom(
+// `tick` ""quote"" 'q'
+// " ++ [27880; 37322]%N ++ runes_of_ascii "
+""1"" ) @tag(	00 )	@rightPad ( //
+' ' )
+BodyLength @lengthOf( uint8x ) ,
+Header `line1
+line2` ,	@calculatedFrom(
+    """" ) repeat	int32 As
+, } packet uint8x {
+i16 Header
+@lengthOf(calculatedFrom )
+, }
+")).
+Eval vm_compute in ("<<<M3512>>>" ++ check (runes_of_ascii "options {
+LittleEndian	=
+
+true
+
+;
+	StringPrefixLenType =
+
+u32
+
+; FixedStringPadChar ='0'
+;
+	}packet
+Logout {
+repeat
+    InMsgkind49
+    {
+	u8
+pad0
+,
+}, repeat  char[
+5
+
+    ] seqNo	,
+    repeat
+u8
+    price
+,
+}packet
+
+    Party { zchar[
+	7	] Qty  ,
+	}
+packet
+	Logon { repeat
+InRef10
+    {	string
+price ,
+char[]	sym
+
+, repeat	Logout,
+
+    }	,
+
+    repeat 
+char[
+    3 
+]count
+, repeat	Party ,  char[] tag7,
+    @rightPad ( '0'
+)  char[2 
+]
+	clOrdID
+    ,
+	} packet Order
+{	InTail13	{
+
+    Party ,  }
+,
+	repeat
+	char[
+4 ]count ,
+
+}root  packet
+Cancel 
+{
+Logout ,	@leftPad	(  '0')
+
+char[	9 ]  msgKind	,
+
+string
+
+lastPx ,
+    string tag7
+
+    , 
+zchar[ 1 ]OrderId
+,
+repeat
+Party ,	u16
+    sym,  u16
+Acct@lengthOf(	Body ) ,
+match
+	sym 
+as Body
+
+    {
+    [24
+
+,	44 ]
+    :Logout
+,
+
+160 :	Order ,91
+	: Logon,
+	43
+: Party ,}, u16
+
+Tail
+    @calculatedFrom( ""CRC32"" 
+)
+    ,
+	}
+
+")).
+Eval vm_compute in ("<<<M244>>>" ++ check (runes_of_ascii "MetaData falsey { string tag
+`// not a comment` , } packet x
+{ char[]int @lengthOf( u)
+`u8 x,`
+    ,
+@calculatedFrom( ""abc"" ) @leftPad ('0')@tag( 255) repeat T {
+f32a
+`" ++ [233]%N ++ runes_of_ascii "`  ,
+u128 @calculatedFrom( """ ++ [128512]%N ++ runes_of_ascii """ ) // a // b
+,
+    // c
+    repeat
+float { char[] x ,}
+    ,
+},@lengthOf( Header
+)string_ @lengthOf(Logon )//	t
+, body
+Pad `" ++ [28040; 24687; 31867; 22411]%N ++ runes_of_ascii "`,
+}packet matchKey { }
+    //	t
+    packet options1	{
+    string	a1 @calculatedFrom( ""{,}"" ) ,}	packet x {match a1 as i64_ { 1
+: Packet , ""abc"": crc ,
+    }
+    , int8
+calculatedFrom@lengthOf( i8i8
+    //	t
+    ),
+    @calculatedFrom( """"	)
+@calculatedFrom( """ ++ [128512]%N ++ runes_of_ascii """ ) lengthOf
+`a\`, char[1  ] u8x , zchar[ 007]// packet A { u8 x, }
+metadata  @calculatedFrom(// a // b
+""\n"" ) , @lengthOf(
+len) @rightPad ( ) char[
+    // " ++ [27880; 37322]%N ++ runes_of_ascii "
+    10 // packet A { u8 x, }
+]	Pad , repeat options1 `{ , }`,
+    char[] tag @lengthOf( Packet ),}
+")).
+Eval vm_compute in ("<<<M3990>>>" ++ check (runes_of_ascii "packet o {
+    repeat char[65535] rootA,
+}
+
+packet repeatCount {
+    @tag(10)
+    @lengthOf(_x)
+    repeat int64 f32a `" ++ [233]%N ++ runes_of_ascii "`,
+    @leftPad('0')
+    @leftPad(' ')
+    @tag(3)
+    // trailing space 
+    o `doc`,
+    // a // b
+    @calculatedFrom("""")
+    string o,
+    @lengthOf(msg_type)
+    match A as T {
+        [
+            ""packet"", ""a\\"", 1, 10, ""x y"",
+            3
+        ] : leftPad,
+        ""packet"" : calculatedFrom,
+        //	t
+        [255] : o,
+        42 : int,
+    },
+    Z9_ float `a\`,
+    char[] u,
+    @lengthOf(i64_)
+    string A @lengthOf(int) `it's`,
+    @rightPad('0')
+    roots {
+        pack @lengthOf(As) `crlf
+                line`,// c
+        zchar[00] zchar @lengthOf(u8x),
+    },
+    @tag(0)
+    @rightPad()
+    @calculatedFrom(""" ++ [128512]%N ++ runes_of_ascii """)
+    f32a lengthOf `{ , }`,
+}
+// `tick` ""quote"" 'q'")).
+Eval vm_compute in ("<<<M1400>>>" ++ check (runes_of_ascii "options
+    //	t
+    {
+    As = false } //	t
+packet falsey { @lengthOf(float// packet A { u8 x, }
+) @calculatedFrom( ""\n"" ) u32 As , match leftPad
+as repeatCount {
+    0 :  Z9_ , 1
+: repeatCount , [// trailing space 
+65535// c
+]:
+Pad	00
+    :
+    packetx ""a\\""
+:
+packetx,00 :crc , } ,
+repeat Packet
+    , repeat float /// triple
+{ u128
+    @calculatedFrom( """ ++ [28040; 24687]%N ++ runes_of_ascii """
+    ) `say ""hi""` , u64	Foo `say ""hi""` ,  } , @leftPad(
+'\x00'
+)	@tag(
+1 )@calculatedFrom(  ""`tick`""
+    ) f64 lengthOf
+, @rightPad(
+'0' ) @leftPad (
+) @lengthOf( f32a)repeat i64_ x_y_z, @rightPad ( '\x00'
+)o@calculatedFrom( """"  ) `a\`	,
+// a // b
+//x
+asx
+    { repeat T
+chars
+`` ,repeat char[ 0 ]
+string_ ,  } , repeat
+char repeatCount `u8 x,` , zchar[7 ]
+T@calculatedFrom(
+// packet A { u8 x, }
+//x
+""a\\""
+)  , }
+")).
+Eval vm_compute in ("<<<M633>>>" ++ check (runes_of_ascii "packet u{ uint64
+    u8x , @leftPad (
+'0' )u16
+uint8x@lengthOf( T
+    ), @lengthOf(
+// `tick` ""quote"" 'q'
+// `tick` ""quote"" 'q'
+lengthOf) @lengthOf( msg_type)u16
+tag @calculatedFrom(""a\""b""
+    )
+    // a // b
+    `crlf
+line` ,
+} packet As {@calculatedFrom( ""a\\"")u128 { int16
+string_
+    // c
+    @lengthOf( Header ) , repeat i64_ `{ , }`,
+    },/// triple
+} root packet
+    roots { @calculatedFrom( //	t
+""`tick`"" ) i32 Header `" ++ [233]%N ++ runes_of_ascii "` ,int8 T ,  @rightPad
+( ' ' ) u32
+    charz`doc`, char[ 65535 ]f32a
+    , metadata,
+}  MetaData T { u8x roots
+`it's` ,
+options1 MetaDataX , int32 f32a , } options { // trailing space 
+f32a = '0' Pad =
+//x
+// trailing space 
+0123456789 ;
+    repeatCount
+    // a // b
+    = char[] x_y_z
+//x
+// " ++ [27880; 37322]%N ++ runes_of_ascii "
+=
+'\x00'
 }
 ")).
-Eval vm_compute in ("<<<M3616>>>" ++ check (runes_of_ascii "packet u8x {
-    u64 metadata `a\`,
-    @tag(65535)
-    @rightPad()
-    repeat int16 As,
-    @rightPad()
-    match lengthOf as body {
-        7 : chars,
-        [
-            255, 0123456789, 7, ""// no comment"", ""\n"",
-            ""a	b""
-        ] : x_y_z,
-        ""abc"" : metadata,
+Eval vm_compute in ("<<<M137>>>" ++ check (runes_of_ascii "root packet x_y_z{
+    }packet calculatedFrom {char[] Foo @lengthOf( Pad
+    ) ,} root packet // @lengthOf(
+u128 // @lengthOf(
+{} packet u8x { @lengthOf(asx ) match charz
+    as msg_type { // @lengthOf(
+[ 0123456789
+    ] : i64_	,
+    [ 0]
+: a1  }
+,f32 Pad , //x
+match /// triple
+falsey as BodyLength
+    { """ ++ [233]%N ++ runes_of_ascii "t" ++ [233]%N ++ runes_of_ascii """
+:// trailing space 
+charz 10 :
+    roots ,
+10
+: x_y_z// " ++ [27880; 37322]%N ++ runes_of_ascii "
+,
+    ""`tick`"" :_x ,""// no comment""
+: chars [
+    10,
+    1
+]:	Foo ,	}	, repeat u64	u8x
+    `doc`
+,
+    @lengthOf(
+body) uint64 options1  `` ,
+@calculatedFrom(
+""a\""b"")
+    // trailing space 
+    match  Packet as x_y_z{[ 007 ]
+    // a // b
+    :
+tag  ,[ ""a\""b"" ] : rootA , //	t
+"""" : x_y_z // " ++ [27880; 37322]%N ++ runes_of_ascii "
+65535 :
+asx  ,	""" ++ [233]%N ++ runes_of_ascii "t" ++ [233]%N ++ runes_of_ascii """ : o  , } , }
+")).
+Eval vm_compute in ("<<<M4212>>>" ++ check (runes_of_ascii "// " ++ [128512]%N ++ runes_of_ascii " emoji
+packet u128 {
+    repeat MetaDataX,
+    int64 leftPad,//	t
+    @lengthOf(matchKey)
+    //
+    @calculatedFrom(""" ++ [28040; 24687]%N ++ runes_of_ascii """)
+    match T as Header {
+        255 : repeatCount,
+        ""it's"" : roots,
     },
 }
 
-packet lengthOf {
-    char[] As @calculatedFrom(""a\\"") `a\`,
+//
+//	t
+packet MetaDataX {
+    repeat chars asx `tab	here`,
+    repeat o {
+        repeat _x {
+            repeat uint32 charz `u8 x,`,
+            zchar[42] leftPad @calculatedFrom(""" ++ [28040; 24687]%N ++ runes_of_ascii """) `doc`,/// triple
+        },
+    },
+    int16 u @lengthOf(f32a) `tab	here`,
+    match f32a as i64_ {
+        00 : len,
+    },
+}
+
+MetaData pack {
+    f32a packetx,
+    zchar[10] Header `tab	here`,
+    zchar[007] string_ `crlf
+    line`,
+    char[] matchKey,
+    float64 float,
 }")).
-Eval vm_compute in ("<<<M3618>>>" ++ check (runes_of_ascii "
-packet Foo {
+Eval vm_compute in ("<<<M140>>>" ++ check (runes_of_ascii "options  { }
+MetaData metadata  {	float32 u128 `" ++ [28040; 24687; 31867; 22411]%N ++ runes_of_ascii "` ,
+}packet
+roots {
+i64 uint8x``
+// `tick` ""quote"" 'q'
+// `tick` ""quote"" 'q'
+, @tag(  3) // packet A { u8 x, }
+@tag(
+    0123456789	) stringy @lengthOf(Header )`u8 x,` , f64 u //x
+`tab	here`,  match  u8x as u8x
+    // `tick` ""quote"" 'q'
+    { 10 : string_ , }, zchar[
+7 ]  u@calculatedFrom( // a // b
+""packet"" ) ,  @leftPad
+    ( ) repeat asx _x
+    ,zchar[ // `tick` ""quote"" 'q'
+7] uint8x
+,body
+{repeat zchar[
+3]
+    As , string Header
+,
+    char[] u, }
+, repeat Logon{
+repeat zchar[65535 ] packetx `// not a comment` , }
+, } // packet A { u8 x, }
+MetaData
+msg_type{
+f64
+    crc	`{ , }`
+, }
+")).
+Eval vm_compute in ("<<<M4070>>>" ++ check (runes_of_ascii "MetaData o {
+    uint8 asx,// " ++ [27880; 37322]%N ++ runes_of_ascii "
+}
+
+MetaData _x {
+    A Z9_ `a\`,
+}
+
+packet string_ {
+    repeat x_y_z f32a,
+    charz {
+        msg_type @lengthOf(A),
+    },
+    uint16 stringy,
+    @calculatedFrom(""" ++ [233]%N ++ runes_of_ascii "t" ++ [233]%N ++ runes_of_ascii """)
+    leftPad msg_type,
+    @tag(7)
+    @calculatedFrom(""" ++ [28040; 24687]%N ++ runes_of_ascii """)
+    i64_,
+    repeat trueish x `doc`,
+    uint16 metadata @lengthOf(i8i8) `tab	here`,
+    repeat tag Logon,
+    repeat repeatCount metadata ``,// trailing space 
+}
+
+packet roots {
+    repeat x_y_z {
+        // `tick` ""quote"" 'q'
+        char[4294967296] stringy `line1
+        line2`,
+        uint16 body,
+    },
+    @leftPad(' ')
+    MetaDataX stringy,
+}")).
+Eval vm_compute in ("<<<M296>>>" ++ check (runes_of_ascii "root
+packet i64_ // " ++ [27880; 37322]%N ++ runes_of_ascii "
+{match // " ++ [128512]%N ++ runes_of_ascii " emoji
+rootA as stringy {
+    10 : int , 7 : chars
+, 7: int 4294967296: // @lengthOf(
+Foo , [// trailing space 
+7 , """ ++ [28040; 24687]%N ++ runes_of_ascii """  ]  :// c
+BodyLength [ 0 ,""1""
+    , 00 , 7
+    ,""it's"" ] :
+As ,
+    } ,
+repeat char[] a1`u8 x,`, @leftPad
+// packet A { u8 x, }
+// " ++ [27880; 37322]%N ++ runes_of_ascii "
+(
+    // trailing space 
+    ' '	) packetx , @calculatedFrom(  ""\n"")  repeat matchKey
+    { char[7
+    // `tick` ""quote"" 'q'
+    ] falsey
+    `crlf
+line` , } ,
+// c
+/// triple
+@lengthOf( f32a ) uint8
+Z9_
+,
+// a // b
+//	t
+falsey ,	repeat leftPad ,  @tag(1 ) u8x@lengthOf(  i64_
+) , }
+")).
+Eval vm_compute in ("<<<M1266>>>" ++ check (runes_of_ascii "packet matchKey { @rightPad ( ' ' )
+    @tag( 65535 ) _x @lengthOf( options1 )
+`" ++ [28040; 24687; 31867; 22411]%N ++ runes_of_ascii "`,
+@lengthOf( o ) tag /// triple
+Logon ,
+}
+packet
+pack // @lengthOf(
+{ @tag(
+7 ) zchar[ 0
+] u @calculatedFrom( ""\n"" )
+    `a\` ,repeat stringy ,repeat i8i8 a1 ,char[ 0 ] pack @calculatedFrom(
+""\n"" )`line1
+line2` , }packet u128{
+@lengthOf(
+metadata)
+int8 Foo
+`
+` , @leftPad( '\x00') zchar , len // c
+Header ,  repeat
+    chars
+``,
+f64 trueish@calculatedFrom( ""`tick`"")
+    // " ++ [27880; 37322]%N ++ runes_of_ascii "
+    , @lengthOf(
+matchKey// @lengthOf(
+) uint32 i8i8
+, asx int `a\`, }
+")).
+Eval vm_compute in ("<<<M1147>>>" ++ check (runes_of_ascii "root
+    // trailing space 
+    packet
+    a1 { int16
+u8x , match
+    pack as i8i8{ ""packet""
+    :
+i64_ [ 1,
+    //
+    7 // @lengthOf(
+,007	, 0123456789 , """ ++ [233]%N ++ runes_of_ascii "t" ++ [233]%N ++ runes_of_ascii """
+    , 0 ] :
+chars
+    , [
+    7 ,
+""a\\"" , ""a\""b"", 007  , 0	,""// no comment"" ] : A	,}  ,
+int64 metadata , @lengthOf(roots )len ,repeat
+    //
+    As// trailing space 
+`it's`  , //	t
+repeat calculatedFrom
+    {repeat
+//x
+// " ++ [27880; 37322]%N ++ runes_of_ascii "
+options1 stringy , calculatedFrom matchKey
+    `" ++ [28040; 24687; 31867; 22411]%N ++ runes_of_ascii "` , float32
+options1 @lengthOf( // trailing space 
+float
+)
+    , } , } 	 ")).
+Eval vm_compute in ("<<<M4470>>>" ++ check (runes_of_ascii "
+
+  MetaData
 
     asx
 
-{ falsey , } 
-,@calculatedFrom(
+{
+//x
+}
 
-// " ++ [128512]%N ++ runes_of_ascii " emoji
-  /// triple
-""CRC32""
+packet falsey
+	{
+@tag(	00
     )
 
-repeat  char[ 007
+char[1]
+options1`crlf
+line`	,	// `tick` ""quote"" 'q'
+		@tag(	3
 
-    ]rootA 
-, A
+    )asx {
 
-    ,
-	repeat  // packet A { u8 x, }
-	i8i8
-pack
-`two words`
+Header
+    @lengthOf(
+    pack)
+`say ""hi""`  ,
 
-// c
-	// a // b
-      , } options
-{}
-packet	uint8x // @lengthOf(
+match
 
-{
-string Foo	@lengthOf(
-u ) 
-`u8 x,`
-    ,
-    i32
-BodyLength ,
+    Pad
+as calculatedFrom
+        // " ++ [27880; 37322]%N ++ runes_of_ascii "
+	{
+
+""{,}""
+    :
+
+    string_
+
+    [
+
+""x y"" ,
+    007]
+	:msg_type ,
+""abc""	: string_
+
+,[ 
+
+    // c
+	  /// triple
+	42
+
+,  1
+    , ""// no comment"" 
+,	""\" ++ [233]%N ++ runes_of_ascii """ ,	""`tick`""
+,
+""`tick`""
+,	""a\""b""] 
+: 
+Packet
+	,
+255:
+options1  } 
+,
+
+    } ,
 }
 ")).
-Eval vm_compute in ("<<<M158>>>" ++ check (runes_of_ascii "packet crc { // " ++ [128512]%N ++ runes_of_ascii " emoji
-int `" ++ [28040; 24687; 31867; 22411]%N ++ runes_of_ascii "`,  repeat Header	`doc` ,
-    @tag(
-    // " ++ [128512]%N ++ runes_of_ascii " emoji
-    65535 )
-    leftPad BodyLength
-    `// not a comment` // " ++ [128512]%N ++ runes_of_ascii " emoji
-, /// triple
-char[ 42 ]
-    roots	`` // a // b
-, } packet
-    uint8x
+Eval vm_compute in ("<<<M459>>>" ++ check (runes_of_ascii "packet o{
+    @rightPad(  '0'
+    ) @tag(00 ) uint16 i64_ `two words` , //	t
+As `{ , }` , }//	t
+packet len {
+lengthOf`crlf
+line` , metadata ,i32
+    float ,int16 msg_type `" ++ [233]%N ++ runes_of_ascii "` , zchar[ 007 ]
+float `line1
+line2` ,  char[] // c
+falsey ,
+    @rightPad/// triple
+(' '
+) roots stringy`" ++ [233]%N ++ runes_of_ascii "`
+,	@calculatedFrom(
+    // trailing space 
+    """") zchar[ 42 ] trueish , @tag(
+1) f32
+    // @lengthOf(
+    x ,} options
+{ A =
+    ""abc""
+// packet A { u8 x, }
+// " ++ [27880; 37322]%N ++ runes_of_ascii "
+;
+    Packet =42
+}")).
+Eval vm_compute in ("<<<M427>>>" ++ check (runes_of_ascii "packet asx{
+    //	t
+    repeat
+float64
+    uint8x //
+,}	packet u128 // packet A { u8 x, }
+{ BodyLength , match
+BodyLength as
+    metadata {0123456789 : calculatedFrom [
+10, ""packet""
+,
+// @lengthOf(
+// @lengthOf(
+""// no comment"" , ""CRC32"" ,
     // `tick` ""quote"" 'q'
-    { @lengthOf(
-i8i8 )
-// trailing space 
-//	t
-Pad
-    MetaDataX//	t
+    """ ++ [128512]%N ++ runes_of_ascii """ , 10,
+""\n"" ] : BodyLength , 42 // " ++ [27880; 37322]%N ++ runes_of_ascii "
+:crc
+,
+""packet""
+// `tick` ""quote"" 'q'
+// " ++ [27880; 37322]%N ++ runes_of_ascii "
+: x_y_z
+// a // b
+// " ++ [128512]%N ++ runes_of_ascii " emoji
+,	[ 3 ,  ""x y""// a // b
+,""packet"" , 3 ,
+    ""1"" ]: asx , }
 ,}
 ")).
-Eval vm_compute in ("<<<M4094>>>" ++ check (runes_of_ascii "//x
-packet BodyLength {
-    @tag(10)
-    @calculatedFrom(""1"")
-    falsey uint8x,
-    repeat trueish body,
-    @leftPad('0')
-    @calculatedFrom(""" ++ [28040; 24687]%N ++ runes_of_ascii """)
-    @calculatedFrom(""1"")
-    match falsey as matchKey {
-        ""x y"" : As,
-        [3, ""CRC32""] : Foo,
-        """" : roots,
-    },
-    string stringy `{ , }`,
-}")).
-Eval vm_compute in ("<<<M212>>>" ++ check (runes_of_ascii "/// triple
-packet A
-{@calculatedFrom(""a\""b"" ) Logon`u8 x,` , metadata BodyLength
-, } // trailing space 
-packet	As{ @rightPad (
-) repeat
-uint8
-chars , i64
-/// triple
+Eval vm_compute in ("<<<M4440>>>" ++ check (runes_of_ascii "  root
+	packet
+
+    asx
+	{
+    @calculatedFrom( ""CRC32"" 
+        // " ++ [27880; 37322]%N ++ runes_of_ascii "
+    // packet A { u8 x, }
+		)
+
+match 
+chars  as trueish{ """"
+
+:
+
+T
+,42
+	:
+f32a ,
+""{,}"" :
+calculatedFrom
+    255 :  // c
+  	A
+,}
+	,	}root
+packet
+matchKey 
+{
+u16	len
+
+@lengthOf( metadata
+    )  `// not a comment` ,}  options {
+Z9_
+
+    =""it's""
+packetx
+	= 
+""" ++ [28040; 24687]%N ++ runes_of_ascii """ ;
+    falsey 
 // a // b
-zchar `say ""hi""` ,@rightPad
-( '\x00' )
-@leftPad (
-'0')@lengthOf( int
-) char[
-    65535  ] rootA , } root packet trueish
-{}
-")).
-Eval vm_compute in ("<<<M1542>>>" ++ check (runes_of_ascii "root packet Foo // " ++ [128512]%N ++ runes_of_ascii " emoji
-{ } options {
-    // a // b
-    tag // `tick` ""quote"" 'q'
-= //	t
-""""
-    ; u8x = zchar[0  ] }
-MetaData
-    int {zchar[ 10]
-lengthOf	`` , float64 u8x`// not a comment` ,MetaDataX pack// `tick` ""quote"" 'q'
-`crlf
-line`
-, Logon charz `crlf
-line`
-    ,
-    // a // b
-    }
-")).
-Eval vm_compute in ("<<<M1490>>>" ++ check (runes_of_ascii "root packet Foo // " ++ [128512]%N ++ runes_of_ascii " emoji
-{ } options {
-    // a // b
-    tag // `tick` ""quote"" 'q'
-= //	t
-""""
-    ; u8x = zchar[0  ] } }
-MetaData
-    int {zchar[ 10]
-lengthOf	`` , i64 u8x`// not a comment` ,MetaDataX pack// `tick` ""quote"" 'q'
-`crlf
-line`
-, Logon charz `crlf
-line`
-    ,
-    // a // b
-    }
-")).
-Eval vm_compute in ("<<<M1417>>>" ++ check (runes_of_ascii "root uint64 Foo // " ++ [128512]%N ++ runes_of_ascii " emoji
-{ } options {
-    // a // b
-    tag // `tick` ""quote"" 'q'
-= //	t
-""""
-    ; u8x = zchar[0  ] }
-MetaData
-    int {zchar[ 10]
-lengthOf	`` , i64 u8x`// not a comment` ,MetaDataX pack// `tick` ""quote"" 'q'
-`crlf
-line`
-, Logon charz `crlf
-line`
-    ,
-    // a // b
-    }
-")).
-Eval vm_compute in ("<<<M1581>>>" ++ check (runes_of_ascii "root packet Foo // " ++ [128512]%N ++ runes_of_ascii " emoji
-{ } options {
-    // a // b
-    tag // `tick` ""quote"" 'q'
-= //	t
-""""
-    ; u8x = zchar[0  ] }
-MetaData
-    int {zchar[ 10]
-lengthOf	`` , i64 u8x`// not a comment` ,MetaDataX pack// `tick` ""quote"" 'q'
-`crlf
-line`
-, charz Logon `crlf
-line`
-    ,
-    // a // b
-    }
-")).
-Eval vm_compute in ("<<<M1514>>>" ++ check (runes_of_ascii "root packet Foo // " ++ [128512]%N ++ runes_of_ascii " emoji
-{ } options {
-    // a // b
-    tag // `tick` ""quote"" 'q'
-= //	t
-""""
-    ; u8x = zchar[0  ] }
-MetaData
-    int {zchar[ ]
-lengthOf	`` , i64 u8x`// not a comment` ,MetaDataX pack// `tick` ""quote"" 'q'
-`crlf
-line`
-, Logon charz `crlf
-line`
-    ,
-    // a // b
-    }
-")).
-Eval vm_compute in ("<<<M3920>>>" ++ check (runes_of_ascii "
+    	// c
+=	//
+	char[  0]  ;
+MetaDataX
 
-  packet chars 
-{
-repeat float32 
-x_y_z
-	,
-@tag(
-    0123456789 )char[
-255
-]
-	rootA  `{ , }`
-    ,
-
-} options
-    {
-	x =
-zchar[
-	00 ] 
-;
-	Packet
-
-    =
-	'\x00'
+= ""a\\""
+A =
+    true
 
 ;
-
-    } 
-options{
-Z9_= // packet A { u8 x, }
-	  ""CRC32""
-	;  As	=  // `tick` ""quote"" 'q'
-  uint32
-	;
-} 	 // a // b")).
-Eval vm_compute in ("<<<M1005>>>" ++ check (runes_of_ascii "packet o {
-@lengthOf(matchKey	) Logon ,
-@lengthOf( u128 ) Header metadata `u8 x,` ,
-// " ++ [27880; 37322]%N ++ runes_of_ascii "
-// `tick` ""quote"" 'q'
-@leftPad	(' '
-    //
-    )
-@lengthOf( Header ) @calculatedFrom( ""\" ++ [233]%N ++ runes_of_ascii """ )f32a
-@lengthOf( asx)	, } MetaData leftPad{ i32
-    // `tick` ""quote"" 'q'
-    charz `
-` ,
-}
-")).
-Eval vm_compute in ("<<<M1037>>>" ++ check (runes_of_ascii "packet crc // " ++ [27880; 37322]%N ++ runes_of_ascii "
-{  zchar[ 0123456789 ]
-    A `say ""hi""`,repeat char[
-    255 ]u , zchar`// not a comment`//
-,}	packet  uint8x { int16 Packet ,
-repeat uint8x {
-    asx lengthOf , // @lengthOf(
-char[0123456789
-] // packet A { u8 x, }
-asx `line1
-line2`
-    , } ,
-}")).
-Eval vm_compute in ("<<<M1606>>>" ++ check (runes_of_ascii "root packet Foo // " ++ [128512]%N ++ runes_of_ascii " emoji
-{ } options {
-    // a // b
-    tag // `tick` ""quote"" 'q'
-= //	t
-""""
-    ; u8x = zchar[0  ] }
-MetaData
-    int {zchar[ 10]
-lengthOf	`` , i64 u8x`// not a comment` ,MetaDataX pack// `tick` ""quote"" 'q'
-`crlf
-line`
-, Logon charz ")).
-Eval vm_compute in ("<<<M47>>>" ++ check (runes_of_ascii "  root packet rootA { @leftPad
-(
-'\x00' // `tick` ""quote"" 'q'
-) @lengthOf(
-    crc ) @lengthOf( string_ ) uint16 Z9_ `
-`	, @lengthOf( Z9_ )char[4294967296
-    ]  zchar `say ""hi""` ,
-    u, match
-int as
-    stringy {
-3 :
-    body, }
-    ,	} 	 ")).
-Eval vm_compute in ("<<<M3449>>>" ++ check (runes_of_ascii "// top
-options
-    // c0
-{
-    // c1
-FixedStringPadFromLeft =
-    // c3
-true // c4
-;
-    // c5
-}
-    // c6
-root
-    // c7
-packet P // c9a
-  // c9b
-{
-    // c10
-char[
-    // c11
-4 // c12a
-  // c12b
-] z
-    // c14
-, // c15a
-  // c15b
-} ")).
-Eval vm_compute in ("<<<M4210>>>" ++ check (runes_of_ascii "
-packet Z9_
-	{ i32 body , 
-u64 u8x  @lengthOf( 
-	// trailing space 
-  x_y_z
-	) 
-, 
-@lengthOf(u128 ) zchar[ 00
-    ]
-    stringy
-
+    }")).
+Eval vm_compute in ("<<<M467>>>" ++ check (runes_of_ascii "root/// triple
+packet//	t
+options1 { float64 u128`" ++ [28040; 24687; 31867; 22411]%N ++ runes_of_ascii "`// a // b
+,	@tag(  0 ) //	t
+match int as
+    float { 4294967296 //
+:	metadata, ""a\\"" : x// packet A { u8 x, }
+, 3
+: u
+    // packet A { u8 x, }
     ,
-	repeat
-
-uint8 
-leftPad ,  } packet matchKey
-
-{
-
-} 	 // @lengthOf(
-packet  pack//
-	{}
-")).
-Eval vm_compute in ("<<<M2331>>>" ++ check (runes_of_ascii "MetaData Packet { }packet	asx  { @lengthOf( asx) falsey`crlf
-line`
-,
-    }
-    packet x	{uint32// @lengthOf(
-rootA	,u32 options1 `say ""hi""` , @tag( @tag( 7
-    )// packet A { u8 x, }
-msg_type @lengthOf(
-stringy	)	, }
-
-")).
-Eval vm_compute in ("<<<M2286>>>" ++ check (runes_of_ascii "MetaData Packet { }packet	asx  { @lengthOf( asx) falsey`crlf
-line`
-,
-    }
-    packet x x	{uint32// @lengthOf(
-rootA	,u32 options1 `say ""hi""` , @tag( 7
-    )// packet A { u8 x, }
-msg_type @lengthOf(
-stringy	)	, }
-
-")).
-Eval vm_compute in ("<<<M434>>>" ++ check (runes_of_ascii "MetaData
-    charz { zchar[ 00 ]
-    leftPad
-    `tab	here` , zchar[ //x
-007
-] // " ++ [27880; 37322]%N ++ runes_of_ascii "
-matchKey , crc	matchKey  ,char[
-    1
-// " ++ [27880; 37322]%N ++ runes_of_ascii "
-// a // b
-]
-// `tick` ""quote"" 'q'
-//	t
-x_y_z ,
-    string_ matchKey `say ""hi""` , }
-")).
-Eval vm_compute in ("<<<M2368>>>" ++ check (runes_of_ascii "MetaData Packet { }packet	asx  { @lengthOf( asx) falsey`crlf
-line`
-,
-    }
-    packet x	{uint32// @lengthOf(
-rootA	,u32 options1 `say ""hi""` , @tag( 7
-    )// packet A { u8 x, }
-msg_type @lengthOf(
-stringy	)	0 }
-
-")).
-Eval vm_compute in ("<<<M2263>>>" ++ check (runes_of_ascii "MetaData Packet { }packet	asx  { @lengthOf( asx) u64`crlf
-line`
-,
-    }
-    packet x	{uint32// @lengthOf(
-rootA	,u32 options1 `say ""hi""` , @tag( 7
-    )// packet A { u8 x, }
-msg_type @lengthOf(
-stringy	)	, }
-
-")).
-Eval vm_compute in ("<<<M2215>>>" ++ check (runes_of_ascii "( Packet { }packet	asx  { @lengthOf( asx) falsey`crlf
-line`
-,
-    }
-    packet x	{uint32// @lengthOf(
-rootA	,u32 options1 `say ""hi""` , @tag( 7
-    )// packet A { u8 x, }
-msg_type @lengthOf(
-stringy	)	, }
-
-")).
-Eval vm_compute in ("<<<M1027>>>" ++ check (runes_of_ascii "packet body { @calculatedFrom( ""a\""b"" ) T uint8x `` , } root packet rootA /// triple
-{ float64
-    leftPad// packet A { u8 x, }
-, u16 zchar,
-}
-    //	t
-    MetaData roots //	t
-{ u8 i64_ , } /// triple")).
-Eval vm_compute in ("<<<M155>>>" ++ check (runes_of_ascii "packet pack
-    { @calculatedFrom(
-""CRC32""
-) i8i8 { MetaDataX @lengthOf( x
-//x
-// packet A { u8 x, }
-), char As @lengthOf( len	) ,
+// c
 // " ++ [128512]%N ++ runes_of_ascii " emoji
+0 :falsey } ,
+    } options
+// @lengthOf(
 //x
-chars metadata `say ""hi""` , char[ 0] int ,}, }
+{
+    As
+// " ++ [128512]%N ++ runes_of_ascii " emoji
+//
+=
+// a // b
+// `tick` ""quote"" 'q'
+float64 ;
+//	t
+//	t
+Logon	=""// no comment"" ; float = char[255 ] string_ =
+007;  u = '\x00' }
 ")).
-Eval vm_compute in ("<<<M1201>>>" ++ check (runes_of_ascii "root packet BodyLength
-    { lengthOf { char[/// triple
-42  ]
-Foo `` // trailing space 
-, u64 Foo @calculatedFrom(""x y"" //
-) ,}  ,rootA
-@lengthOf(Packet
-)
-    , }
-options
-{ Pad = 00
-}
-")).
-Eval vm_compute in ("<<<M3775>>>" ++ check (runes_of_ascii "root packet stringy {
-    charz T `u8 x,`,
-    char tag,
-    uint64 u128,
+Eval vm_compute in ("<<<M3794>>>" ++ check (runes_of_ascii "packet len {
+    repeat crc,
+    zchar[7] roots `" ++ [233]%N ++ runes_of_ascii "`,
+    u {
+        string_ x_y_z,
+    },
 }
 
-options {
-    x = '0'// `tick` ""quote"" 'q'
-    rootA = ""CRC32"";// " ++ [27880; 37322]%N ++ runes_of_ascii "
-    i64_ = ""a\\"";
-}
-
-options {
-}")).
-Eval vm_compute in ("<<<M3773>>>" ++ check (runes_of_ascii "packet A {
-    match k as n {
-        [
-            007, 66, 9, 12, ""a"",
-            ""bb"", ""d"", ""e"", ""g"", ""h"",
-            ""j"", ""k""
-        ] : B,
-        2 : C,
+root packet len {
+    falsey `a\`,
+    @rightPad(' ')
+    @rightPad()
+    // packet A { u8 x, }
+    // `tick` ""quote"" 'q'
+    @tag(007)
+    repeat float {
+        msg_type `" ++ [28040; 24687; 31867; 22411]%N ++ runes_of_ascii "`,
+        int8 i8i8 `say ""hi""`,
+        match u128 as crc {
+            007 : tag,
+        },
+        char[] As `it's`,
     },
 }")).
-Eval vm_compute in ("<<<M1258>>>" ++ check (runes_of_ascii "packet
-    stringy { @tag( 007
+Eval vm_compute in ("<<<M986>>>" ++ check (runes_of_ascii "//
+packet asx { // c
+match rootA
+    as
+u8x
+    {
+0123456789 :  As, } , @lengthOf(zchar ) i32 Z9_
+    @calculatedFrom(
+""`tick`""// packet A { u8 x, }
+)	, repeat
+string_ //x
+{  repeat zchar[00] Logon `a\`, u16 packetx `` , } , _x ,repeat
+string
+    msg_type ,
+u64 chars @lengthOf( chars)
+    , asx falsey
+    `tab	here` /// triple
+,i32 u,
+//
+// trailing space 
+} MetaData charz {
+}")).
+Eval vm_compute in ("<<<M4383>>>" ++ check (runes_of_ascii "packet Logon {
+    // c2
+    string user,// c5a
+    // c5b
+}
+
+// c6
+root packet Frame {
+    // c10
+    u8 K,// c13
+    match K as Body {
+        1 : Logon,
+        // c22a
+        // c22b
+        2 : Logout,
+    },
+    // c28
+    Tail,
+}
+
+packet Logout {
+    // c34
+    u16 reason,// c37
+}// c38a
+
+// c38b
+packet Tail {
+    u32 crc,// c44a
+    // c44b
+}// c45a
+// c45b")).
+Eval vm_compute in ("<<<M806>>>" ++ check (runes_of_ascii "  MetaData  As/// triple
+{
+    zchar[ 255 ] repeatCount ,u32 lengthOf`u8 x,`
+// " ++ [27880; 37322]%N ++ runes_of_ascii "
+// c
+, o crc
+    , a1	u ,BodyLength matchKey ,
+char[ 00
+//	t
+// " ++ [128512]%N ++ runes_of_ascii " emoji
+]options1
+    `
+` // `tick` ""quote"" 'q'
+, }packet u8x {
+char[0 ] As @calculatedFrom( ""packet""	) , @calculatedFrom( ""\" ++ [233]%N ++ runes_of_ascii """ )@lengthOf(
+int )	repeat
+    //x
+    trueish
+T
+,float32 o
+`u8 x,` ,}
+//	t
+")).
+Eval vm_compute in ("<<<M748>>>" ++ check (runes_of_ascii "root packet BodyLength {
+    @rightPad ( '\x00'  )
+    repeat char[]len	`" ++ [233]%N ++ runes_of_ascii "`, int32	lengthOf `` //x
+, } root packet matchKey{repeat string u8x `line1
+line2` , Header// @lengthOf(
+{ u128 T
+, // trailing space 
+} , }
+packet
+uint8x{
+    @lengthOf(
+    Header
+)  a1@calculatedFrom( """" )
+    // `tick` ""quote"" 'q'
+    `" ++ [233]%N ++ runes_of_ascii "` ,
+//
+// " ++ [128512]%N ++ runes_of_ascii " emoji
+}")).
+Eval vm_compute in ("<<<M1138>>>" ++ check (runes_of_ascii "MetaData
+metadata{
+    char[3// " ++ [128512]%N ++ runes_of_ascii " emoji
+] roots , As zchar,
+u
+msg_type	`say ""hi""` , float32 options1 ``	, char[]
+packetx
+    ,
+}root
+packet f32a {
+    char[]
+MetaDataX `{ , }` , }
+/// triple
+// c
+packet _x{
+@lengthOf( A
+) i64 x
+    ,
+    int @lengthOf( // " ++ [128512]%N ++ runes_of_ascii " emoji
+MetaDataX), repeat BodyLength{ f32 lengthOf , } , }
+")).
+Eval vm_compute in ("<<<M135>>>" ++ check (runes_of_ascii "packet T{ } packet string_ { @tag(7	)repeat uint8 rootA
+    // " ++ [27880; 37322]%N ++ runes_of_ascii "
+    ,@lengthOf(	o
+    )
+    float
+u ,// trailing space 
+Packet @calculatedFrom(
+    ""a\\"" ) ,
+    f32	repeatCount `say ""hi""` /// triple
+, } packet MetaDataX	{match	leftPad as Packet { 007
+: // `tick` ""quote"" 'q'
+x ,
+} , // trailing space 
+}")).
+Eval vm_compute in ("<<<M1292>>>" ++ check (runes_of_ascii "packet body {
+i32
+options1 , } packet
+int {repeat
+    f32a
+{ options1@calculatedFrom(
+    ""abc"" // " ++ [27880; 37322]%N ++ runes_of_ascii "
 )
-@calculatedFrom(
-""packet""
-    ) repeat// " ++ [27880; 37322]%N ++ runes_of_ascii "
-i64
-    x, _x// a // b
-, repeat char[7]Packet , }root packet body	{ i32	Pad
+    // a // b
+    ,
+    zchar[4294967296 ]calculatedFrom , x_y_z
+@calculatedFrom(""packet""	) `say ""hi""` , }
+,
+}packet x_y_z{
+repeat
+    float64 MetaDataX
+    `crlf
+line` //	t
+, crc A ``
+,
+    }
+")).
+Eval vm_compute in ("<<<M1507>>>" ++ check (runes_of_ascii "root packet Foo // " ++ [128512]%N ++ runes_of_ascii " emoji
+{ } options {
+    // a // b
+    tag // `tick` ""quote"" 'q'
+= //	t
+""""
+    ; u8x = zchar[0  ] }
+MetaData
+    int i32 zchar[ 10]
+lengthOf	`` , i64 u8x`// not a comment` ,MetaDataX pack// `tick` ""quote"" 'q'
+`crlf
+line`
+, Logon charz `crlf
+line`
+    ,
+    // a // b
+    }
+")).
+Eval vm_compute in ("<<<M1613>>>" ++ check (runes_of_ascii "root packet Foo // " ++ [128512]%N ++ runes_of_ascii " emoji
+{ } options {
+    // a // b
+    tag // `tick` ""quote"" 'q'
+= //	t
+""""
+    ; u8x = zchar[0  ] }
+MetaData
+    int {zchar[ 10]
+lengthOf	`` , i64 u8x`// not a comment` ,MetaDataX pack// `tick` ""quote"" 'q'
+`crlf
+line`
+, Logon charz `crlf
+line`
+    ,
+    // a // b
+   '' }
+")).
+Eval vm_compute in ("<<<M1466>>>" ++ check (runes_of_ascii "root packet Foo // " ++ [128512]%N ++ runes_of_ascii " emoji
+{ } options {
+    // a // b
+    tag // `tick` ""quote"" 'q'
+= //	t
+""""
+    ; = u8x zchar[0  ] }
+MetaData
+    int {zchar[ 10]
+lengthOf	`` , i64 u8x`// not a comment` ,MetaDataX pack// `tick` ""quote"" 'q'
+`crlf
+line`
+, Logon charz `crlf
+line`
+    ,
+    // a // b
+    }
+")).
+Eval vm_compute in ("<<<M1429>>>" ++ check (runes_of_ascii "root packet Foo // " ++ [128512]%N ++ runes_of_ascii " emoji
+{  options {
+    // a // b
+    tag // `tick` ""quote"" 'q'
+= //	t
+""""
+    ; u8x = zchar[0  ] }
+MetaData
+    int {zchar[ 10]
+lengthOf	`` , i64 u8x`// not a comment` ,MetaDataX pack// `tick` ""quote"" 'q'
+`crlf
+line`
+, Logon charz `crlf
+line`
+    ,
+    // a // b
+    }
+")).
+Eval vm_compute in ("<<<M1444>>>" ++ check (runes_of_ascii "root packet Foo // " ++ [128512]%N ++ runes_of_ascii " emoji
+{ } options {
+    // a // b
+     // `tick` ""quote"" 'q'
+= //	t
+""""
+    ; u8x = zchar[0  ] }
+MetaData
+    int {zchar[ 10]
+lengthOf	`` , i64 u8x`// not a comment` ,MetaDataX pack// `tick` ""quote"" 'q'
+`crlf
+line`
+, Logon charz `crlf
+line`
+    ,
+    // a // b
+    }
+")).
+Eval vm_compute in ("<<<M389>>>" ++ check (runes_of_ascii "MetaData int
+{ //x
+u8x
+float , zchar[3 ] body	`" ++ [28040; 24687; 31867; 22411]%N ++ runes_of_ascii "`, Z9_ leftPad // c
+, f32a
+    msg_type , i64_ // " ++ [27880; 37322]%N ++ runes_of_ascii "
+chars, u8x	o,
+    // packet A { u8 x, }
+    } options{ Z9_
+    // packet A { u8 x, }
+    = false ;
+MetaDataX = // packet A { u8 x, }
+'\x00' ; f32a=
+    """ ++ [28040; 24687]%N ++ runes_of_ascii """
+; x_y_z = ' ';}
+
+")).
+Eval vm_compute in ("<<<M3945>>>" ++ check (runes_of_ascii "
+packet Sub { u8
+
+a 
+,
+@calculatedFrom( ""CRC16""
+)
+
+    i16 
+SubSum 
+,
+
+    }
+	root
+
+    packet
+	Frame{
+	u16
+MsgType 
+,
+u16 BodyLen
+
+    @lengthOf(  Body
+
+)
+
+    ,
+
+Sub 
+Body
+	, string
+    note
+
+    ,
+@calculatedFrom(  ""CRC16"" )
+    i16  Checksum ,u8	tail,
+	}")).
+Eval vm_compute in ("<<<M1294>>>" ++ check (runes_of_ascii "packet _x { // packet A { u8 x, }
+repeat
+    u8
+// @lengthOf(
+//	t
+Logon ,match Packet as repeatCount
+{
+    65535 : leftPad
+    ,[ 7 ]: rootA 4294967296	: Header ,[	00 // trailing space 
+]:u8x
+    ,42 : MetaDataX , 007 :
+// " ++ [27880; 37322]%N ++ runes_of_ascii "
+// " ++ [27880; 37322]%N ++ runes_of_ascii "
+uint8x , // @lengthOf(
+} ,}")).
+Eval vm_compute in ("<<<M344>>>" ++ check (runes_of_ascii "packet
+chars {repeat float32  x_y_z
+    , @tag( 0123456789
+    )	char[
+255	] rootA `{ , }` , } options  { x= zchar[
+    00
+] ;
+Packet= '\x00' ; }
+    options{Z9_ =// packet A { u8 x, }
+""CRC32"" ;
+    As = // `tick` ""quote"" 'q'
+uint32 ; } // a // b")).
+Eval vm_compute in ("<<<M3763>>>" ++ check (runes_of_ascii "root packet Foo {
+}
+
+options {
+    // a // b
+    tag = """";
+    u8x = zchar[0]
+}
+
+MetaData int {
+    zchar[10] lengthOf ``,
+    i64 u8x `// not a comment`,
+    MetaDataX pack `crlf
+    line`,
+    charz Logon `crlf
+    line`,
+    // a // b
+}")).
+Eval vm_compute in ("<<<M3874>>>" ++ check (runes_of_ascii "MetaData len {
+    f64 u,
+    char[] Z9_ `doc`,
+    metadata A,
+    i64 stringy `line1
+    line2`,
+    A int `line1
+    line2`,
+    f32 i8i8,
+}
+
+packet stringy {
+    @calculatedFrom(""" ++ [128512]%N ++ runes_of_ascii """)
+    char[] roots,
+}
+
+root packet metadata {
+}")).
+Eval vm_compute in ("<<<M2389>>>" ++ check (runes_of_ascii "MetaData Packet { @lengthOf}packet	asx  { @lengthOf( asx) falsey`crlf
+line`
+,
+    }
+    packet x	{uint32// @lengthOf(
+rootA	,u32 options1 `say ""hi""` , @tag( 7
+    )// packet A { u8 x, }
+msg_type @lengthOf(
+stringy	)	, }
+
+")).
+Eval vm_compute in ("<<<M2236>>>" ++ check (runes_of_ascii "MetaData Packet { }packet	asx asx  { @lengthOf( asx) falsey`crlf
+line`
+,
+    }
+    packet x	{uint32// @lengthOf(
+rootA	,u32 options1 `say ""hi""` , @tag( 7
+    )// packet A { u8 x, }
+msg_type @lengthOf(
+stringy	)	, }
+
+")).
+Eval vm_compute in ("<<<M313>>>" ++ check (runes_of_ascii "
+packet	stringy
+//	t
+// " ++ [128512]%N ++ runes_of_ascii " emoji
+{ match calculatedFrom // a // b
+as MetaDataX { [ ""a\\"", """ ++ [28040; 24687]%N ++ runes_of_ascii """,// `tick` ""quote"" 'q'
+""CRC32"" ,
+10 ]:x,
+    /// triple
+    0
+:  falsey
+, 1 :u8x ,
+//x
+// c
+65535
+    :	Foo , }
 ,
     }")).
-Eval vm_compute in ("<<<M4369>>>" ++ check (runes_of_ascii "
-
-  MetaData	f32a
-{
-	uint8 	 // a // b
-  	repeatCount 
-,  x_y_z
-	i8i8
-,
-
-f32 msg_type
-    ,charz  lengthOf
-	`tab	here`
-,	char[ 7]
-	chars	,
-float  x
-    ,	}
-")).
-Eval vm_compute in ("<<<M4056>>>" ++ check (runes_of_ascii "
-
-  MetaData u128
-{
-
-char[
-	3
-
-    ]
-    leftPad,char[]
-	u8x `{ , }`	,
-Header
-i8i8, } 
-options{ 
-    //
-crc  = ""// no comment"" asx	= ""CRC32""; 
+Eval vm_compute in ("<<<M2272>>>" ++ check (runes_of_ascii "MetaData Packet { }packet	asx  { @lengthOf( asx) falsey`crlf
+line`
 }
+    ,
+    packet x	{uint32// @lengthOf(
+rootA	,u32 options1 `say ""hi""` , @tag( 7
+    )// packet A { u8 x, }
+msg_type @lengthOf(
+stringy	)	, }
+
 ")).
-Eval vm_compute in ("<<<M4043>>>" ++ check (runes_of_ascii "packet A {
-    match k as n {
-        [
-            ""a"", ""bb"", ""c c"", ""d"", ""e"",
-            ""f"", ""g"", ""h""
-        ] : B,
-        2 : C,
-    },
+Eval vm_compute in ("<<<M2290>>>" ++ check (runes_of_ascii "MetaData Packet { }packet	asx  { @lengthOf( asx) falsey`crlf
+line`
+,
+    }
+    packet x	uint32// @lengthOf(
+rootA	,u32 options1 `say ""hi""` , @tag( 7
+    )// packet A { u8 x, }
+msg_type @lengthOf(
+stringy	)	, }
+
+")).
+Eval vm_compute in ("<<<M2300>>>" ++ check (runes_of_ascii "MetaData Packet { }packet	asx  { @lengthOf( asx) falsey`crlf
+line`
+,
+    }
+    packet x	{uint32// @lengthOf(
+	,u32 options1 `say ""hi""` , @tag( 7
+    )// packet A { u8 x, }
+msg_type @lengthOf(
+stringy	)	, }
+
+")).
+Eval vm_compute in ("<<<M26>>>" ++ check (runes_of_ascii "  packet lengthOf// " ++ [27880; 37322]%N ++ runes_of_ascii "
+{ @leftPad(
+)
+    // a // b
+    @tag( 7
+//x
+/// triple
+)
+u8 BodyLength ,
+    char[ 1
+] chars
+`
+`,
+@tag( 00 )char[ 0]
+    // packet A { u8 x, }
+    Z9_ @lengthOf(
+float) `u8 x,` ,
 }")).
-Eval vm_compute in ("<<<M1513>>>" ++ check (runes_of_ascii "root packet Foo // " ++ [128512]%N ++ runes_of_ascii " emoji
+Eval vm_compute in ("<<<M1189>>>" ++ check (runes_of_ascii "options {
+}root packet x_y_z { //
+int32 f32a
+    `u8 x,` , @calculatedFrom( ""{,}"" ) Header @calculatedFrom( """" ) ,//	t
+zchar[
+4294967296] //x
+roots@lengthOf( string_
+)
+    , }packet rootA
+{
+    }
+")).
+Eval vm_compute in ("<<<M1563>>>" ++ check (runes_of_ascii "root packet Foo // " ++ [128512]%N ++ runes_of_ascii " emoji
 { } options {
     // a // b
     tag // `tick` ""quote"" 'q'
@@ -2158,372 +2085,454 @@ Eval vm_compute in ("<<<M1513>>>" ++ check (runes_of_ascii "root packet Foo // "
 """"
     ; u8x = zchar[0  ] }
 MetaData
-    int {")).
-Eval vm_compute in ("<<<M3598>>>" ++ check (runes_of_ascii "
-packet calculatedFrom  { @tag(  4294967296 )
-
-// c
-	u msg_type
-
-    ,
-    char[3] crc
-
-    @lengthOf(
-
-    len 
-)	`u8 x,` ,
-}
-")).
-Eval vm_compute in ("<<<M4374>>>" ++ check (runes_of_ascii "packet  calculatedFrom{
-@tag(4294967296 )u
-    msg_type ,
-
-    char[ 3	// c
-      ]
-
-    crc@lengthOf(
-len
-
-)	`u8 x,`
-	,
-    }
-")).
-Eval vm_compute in ("<<<M4340>>>" ++ check (runes_of_ascii "
-MetaData float
-
-    {
-tag  body
-`" ++ [233]%N ++ runes_of_ascii "`
-	,f64 i8i8
-
-    `{ , }`
-, f32	chars `two words`
-,Pad
-	i64_// @lengthOf(
-
-	,
-
-}  //	t
-")).
-Eval vm_compute in ("<<<M1714>>>" ++ check (runes_of_ascii "root packet /// triple
-rootA {	i32
-MetaDataX@calculatedFrom( ""CRC32"" ) `line1
-line2` , } MetaData BodyLength {
-u8
-rootA, A // c")).
-Eval vm_compute in ("<<<M4489>>>" ++ check (runes_of_ascii "MetaData string_ {
-    char[] Pad `// not a comment`,
-    i32 lengthOf `{ , }`,
-    u16 As,
-    len x_y_z,
-    char[] rootA,
-}")).
-Eval vm_compute in ("<<<M723>>>" ++ check (runes_of_ascii "packet
-    // @lengthOf(
-    roots { u32 calculatedFrom @calculatedFrom(
-""\" ++ [233]%N ++ runes_of_ascii """ // @lengthOf(
-) // `tick` ""quote"" 'q'
-, }
-
-")).
-Eval vm_compute in ("<<<M2319>>>" ++ check (runes_of_ascii "MetaData Packet { }packet	asx  { @lengthOf( asx) falsey`crlf
-line`
-,
-    }
-    packet x	{uint32// @lengthOf(
-rootA	,u32")).
-Eval vm_compute in ("<<<M1880>>>" ++ check (runes_of_ascii "packet
-    Pad // a // b
-{ i8i8 @calculatedFrom( ""a	b"") `u8 x,` ,
-} options{ float// " ++ [128512]%N ++ runes_of_ascii " emoji
-= f64 i6''4_
-=//	t
-00 }
-")).
-Eval vm_compute in ("<<<M1783>>>" ++ check (runes_of_ascii "Pad
-    packet // a // b
-{ i8i8 @calculatedFrom( ""a	b"") `u8 x,` ,
-} options{ float// " ++ [128512]%N ++ runes_of_ascii " emoji
-= f64 i64_
-=//	t
-00 }
-")).
-Eval vm_compute in ("<<<M1833>>>" ++ check (runes_of_ascii "packet
-    Pad // a // b
-{ i8i8 @calculatedFrom( ""a	b"") `u8 x,` ,
-} uint64{ float// " ++ [128512]%N ++ runes_of_ascii " emoji
-= f64 i64_
-=//	t
-00 }
-")).
-Eval vm_compute in ("<<<M1706>>>" ++ check (runes_of_ascii "root packet /// triple
-rootA {	i32
-MetaDataX@calculatedFrom( ""CRC32"" ) `line1
-line2` , } MetaData BodyLength {
-u8")).
-Eval vm_compute in ("<<<M757>>>" ++ check (runes_of_ascii "root packet	charz	{ @tag(
-    // trailing space 
-    0123456789 )
-string a1 `// not a comment` , }options {
-}
-
-")).
-Eval vm_compute in ("<<<M4328>>>" ++ check (runes_of_ascii "packet A	{  match
-
-    k as
-n
-
-    {[  ""a"" ,	""bb""
-    , ""c c"",  ""d""
-]  :
-
-    B
-
-    ,
-
-2 
-:C}
-,
-} ")).
-Eval vm_compute in ("<<<M317>>>" ++ check (runes_of_ascii "packet BodyLength
-{
-@calculatedFrom(	""""
-)// c
-char[  42 ]uint8x,} packet  len { uint64 a1  `{ , }`//x
-,}
-")).
-Eval vm_compute in ("<<<M3344>>>" ++ check (runes_of_ascii "packet calculatedFrom {
-// c
-@tag( 4294967296 ) u msg_type , char[ 3 ] crc @lengthOf( len ) `u8 x,` , }")).
-Eval vm_compute in ("<<<M3739>>>" ++ check (runes_of_ascii "packet A {
-    u32 crc @calculatedFrom(""x\
-        y""),
-    @calculatedFrom(""x\
-        y"")
-    u8 y,
-}")).
-Eval vm_compute in ("<<<M3035>>>" ++ check (runes_of_ascii "packet A {
+    int {zchar[ 10]
+lengthOf	`` , i64 u8x`// not a comment` ,")).
+Eval vm_compute in ("<<<M3685>>>" ++ check (runes_of_ascii "packet A {
     Inner {
-        u8 x `x
-`,
+        u8 x `a
+                
+                b`,
         Deep {
-            u8 y `x
-`,
+            u8 y `a
+                        
+                        b`,
         },
     },
 }")).
-Eval vm_compute in ("<<<M2940>>>" ++ check (runes_of_ascii "packet A {
+Eval vm_compute in ("<<<M1114>>>" ++ check (runes_of_ascii "
+packet stringy{ @tag( 0
+    )// packet A { u8 x, }
+repeatCount ,@calculatedFrom( """"
+)body	falsey,
+    @lengthOf(// " ++ [27880; 37322]%N ++ runes_of_ascii "
+chars
+) repeat x_y_z `two words`	, repeatCount Pad , }
+")).
+Eval vm_compute in ("<<<M4006>>>" ++ check (runes_of_ascii "// packet A { u8 x, }
+packet BodyLength {
+    @tag(255)
+    repeat uint64 f32a,
+}
+
+packet chars {
+}
+
+MetaData zchar {
+    char[] tag `a\`,
+    body Logon `tab	here`,
+}")).
+Eval vm_compute in ("<<<M1237>>>" ++ check (runes_of_ascii "
+MetaData
+    int {
+    string Z9_  `say ""hi""`, char[]// @lengthOf(
+uint8x // packet A { u8 x, }
+`// not a comment` , char[]Foo , trueish T , // " ++ [27880; 37322]%N ++ runes_of_ascii "
+asx asx , }
+")).
+Eval vm_compute in ("<<<M4503>>>" ++ check (runes_of_ascii "packet 
+A {
+    match
+k
+    as n
+    { 
+[ ""a"" ,
+	""bb"" 
+,007
+
+    ,	""d""
+
+,""e"" 
+,
+
+    66 ,
+
+""g""
+
+, ""h"", 9  ,
+
+    ""j""
+    , ""k"" ] 
+:
+B
+	,2:C
+}, } ")).
+Eval vm_compute in ("<<<M775>>>" ++ check (runes_of_ascii "packet
+Logon
+    { // " ++ [27880; 37322]%N ++ runes_of_ascii "
+repeat MetaDataX { /// triple
+MetaDataX @lengthOf(// @lengthOf(
+matchKey ), } , @lengthOf(len) repeat zchar[00	]u8x , }
+")).
+Eval vm_compute in ("<<<M4280>>>" ++ check (runes_of_ascii "MetaData chars {
+    char[] Header `say ""hi""`,
+    char[] matchKey,
+    char[1] u8x,
+    zchar A,
+    x falsey,
+    zchar[42] calculatedFrom,
+}")).
+Eval vm_compute in ("<<<M3675>>>" ++ check (runes_of_ascii "options {
+    charz = 00;
+    leftPad = zchar[0123456789];
+    //x
+    /// triple
+}
+
+options {
+    falsey = u32;
+}
+
+root packet float {
+}")).
+Eval vm_compute in ("<<<M1315>>>" ++ check (runes_of_ascii "packet
+lengthOf  { @calculatedFrom(
+""packet"" // `tick` ""quote"" 'q'
+) @lengthOf( /// triple
+options1 ) char[]int , } packet
+u8x {	}
+")).
+Eval vm_compute in ("<<<M1180>>>" ++ check (runes_of_ascii "packet
+x{ @calculatedFrom("""" )repeat
+asx	{ //x
+char[ 255 ] x
+    ,}// packet A { u8 x, }
+,  }
+    options  { Pad = // " ++ [27880; 37322]%N ++ runes_of_ascii "
+1//	t
+}")).
+Eval vm_compute in ("<<<M1644>>>" ++ check (runes_of_ascii "root packet /// triple
+rootA {	MetaDataX
+i32@calculatedFrom( ""CRC32"" ) `line1
+line2` , } MetaData BodyLength {
+u8
+rootA, } // c")).
+Eval vm_compute in ("<<<M888>>>" ++ check (runes_of_ascii "MetaData u8x {
+_x Z9_, char[ 7] Logon `it's` ,char[] zchar ,
+    u
+Z9_`two words`
+, u16 f32a `a\` , zchar[ 42 ]
+    f32a ,}
+")).
+Eval vm_compute in ("<<<M1395>>>" ++ check (runes_of_ascii "options
+{ repeatCount
+=
+u16 // `tick` ""quote"" 'q'
+; float  =  ' ' Logon = string
+;packetx = // " ++ [128512]%N ++ runes_of_ascii " emoji
+3//
+a1=  zchar[7	] }")).
+Eval vm_compute in ("<<<M3436>>>" ++ check (runes_of_ascii "packet B {
+    u8 a,
+}
+root packet P {
+    u8 K,
+    u64 L @lengthOf(Body),
+    match K as Body {
+        1 : B,
+    },
+}
+")).
+Eval vm_compute in ("<<<M4301>>>" ++ check (runes_of_ascii "
+packet
+	A
+
+    {	match k
+as 
+n
+
+{	[
+
+1 ,22  , 007,
+4
+
+,
+
+5
+
+    ,66
+
+    ]  :
+
+    B
+	,
+    2
+    :  C }
+,
+}
+
+")).
+Eval vm_compute in ("<<<M1853>>>" ++ check (runes_of_ascii "packet
+    Pad // a // b
+{ i8i8 @calculatedFrom( ""a	b"") `u8 x,` ,
+} options{ float// " ++ [128512]%N ++ runes_of_ascii " emoji
+= root i64_
+=//	t
+00 }
+")).
+Eval vm_compute in ("<<<M1827>>>" ++ check (runes_of_ascii "packet
+    Pad // a // b
+{ i8i8 @calculatedFrom( ""a	b"") `u8 x,` ,
+options }{ float// " ++ [128512]%N ++ runes_of_ascii " emoji
+= f64 i64_
+=//	t
+00 }
+")).
+Eval vm_compute in ("<<<M3993>>>" ++ check (runes_of_ascii "packet
+Logon
+
+{@tag(42
+)@rightPad
+	(
+' ' // c
+
+	) @leftPad
+
+    ()
+
+    repeat  trueish {	string 
+T ,
+
+}	,  } ")).
+Eval vm_compute in ("<<<M1795>>>" ++ check (runes_of_ascii "packet
+    Pad // a // b
+{  @calculatedFrom( ""a	b"") `u8 x,` ,
+} options{ float// " ++ [128512]%N ++ runes_of_ascii " emoji
+= f64 i64_
+=//	t
+00 }
+")).
+Eval vm_compute in ("<<<M250>>>" ++ check (runes_of_ascii "
+MetaData	Logon {	zchar[ 10 ]float `" ++ [233]%N ++ runes_of_ascii "` , BodyLength Z9_ , float32 o `a\` ,uint64 roots `two words` // " ++ [27880; 37322]%N ++ runes_of_ascii "
+,  }
+")).
+Eval vm_compute in ("<<<M1869>>>" ++ check (runes_of_ascii "packet
+    Pad // a // b
+{ i8i8 @calculatedFrom( ""a	b"") `u8 x,` ,
+} options{ float// " ++ [128512]%N ++ runes_of_ascii " emoji
+= f64 i64_
+=")).
+Eval vm_compute in ("<<<M1473>>>" ++ check (runes_of_ascii "root packet Foo // " ++ [128512]%N ++ runes_of_ascii " emoji
+{ } options {
+    // a // b
+    tag // `tick` ""quote"" 'q'
+= //	t
+""""
+    ; u8x")).
+Eval vm_compute in ("<<<M3351>>>" ++ check (runes_of_ascii "packet calculatedFrom { @tag( 4294967296 ) u // c
+msg_type , char[ 3 ] crc @lengthOf( len ) `u8 x,` , }")).
+Eval vm_compute in ("<<<M2973>>>" ++ check (runes_of_ascii "packet A {
   match k as n {
-    [""a"", ""bb"", ""c c"", ""d"", ""e"", ""f"", ""g"", ""h""] : B
+    [""a"", ""bb"", 007, ""d"", ""e"", 66, ""g"", ""h"", 9, ""j""] : B,
     2 : C
   },
 }")).
-Eval vm_compute in ("<<<M3226>>>" ++ check (runes_of_ascii "packet Logon { @tag( 42 ) // c
+Eval vm_compute in ("<<<M178>>>" ++ check (runes_of_ascii "packet As {
+int16
+A , }packet u	{ @lengthOf( Pad
+)
+    f64
+    metadata	@lengthOf( a1
+)
+    ,
+}
+")).
+Eval vm_compute in ("<<<M3215>>>" ++ check (runes_of_ascii "
+// c
+packet Logon { @tag( 42 ) @rightPad ( ' ' ) @leftPad ( ) repeat trueish { string T , } , }")).
+Eval vm_compute in ("<<<M3227>>>" ++ check (runes_of_ascii "packet Logon { @tag( 42 )
+// c
 @rightPad ( ' ' ) @leftPad ( ) repeat trueish { string T , } , }")).
-Eval vm_compute in ("<<<M4000>>>" ++ check (runes_of_ascii "
-MetaData 
-  // " ++ [128512]%N ++ runes_of_ascii " emoji
-msg_type	{
-    As roots
-,
-i32 
-rootA,f64 falsey
-	, char[]
+Eval vm_compute in ("<<<M4138>>>" ++ check (runes_of_ascii "
+packet	o	{	@tag( 42
+	) repeat x
 
-rootA 
-, }")).
+{	char[  0123456789  ]
+
+i64_, }
+
+    ,}
+options	{ }	// c
+")).
 Eval vm_compute in ("<<<M2977>>>" ++ check (runes_of_ascii "packet A {
   match k as n {
     [1, 22, 007, 4, 5, 66, 7, 8, 9, 10, 11] : B
     2 : C
   },
 }")).
-Eval vm_compute in ("<<<M1967>>>" ++ check (runes_of_ascii "root
-packet crc crc
-    { f32a @calculatedFrom( """ ++ [233]%N ++ runes_of_ascii "t" ++ [233]%N ++ runes_of_ascii """ )
-    `say ""hi""`, lengthOf `` ,  }")).
-Eval vm_compute in ("<<<M2289>>>" ++ check (runes_of_ascii "MetaData Packet { }packet	asx  { @lengthOf( asx) falsey`crlf
-line`
+Eval vm_compute in ("<<<M519>>>" ++ check (runes_of_ascii "packet x{ //
+Header ,repeat float32 i8i8
 ,
+// `tick` ""quote"" 'q'
+// packet A { u8 x, }
+}
+")).
+Eval vm_compute in ("<<<M1972>>>" ++ check (runes_of_ascii "root
+packet crc
+    { { f32a @calculatedFrom( """ ++ [233]%N ++ runes_of_ascii "t" ++ [233]%N ++ runes_of_ascii """ )
+    `say ""hi""`, lengthOf `` ,  }")).
+Eval vm_compute in ("<<<M2038>>>" ++ check (runes_of_ascii "root
+packet crc
+    { f32a @calculatedFrom( """ ++ [233]%N ++ runes_of_ascii "t" ++ [233]%N ++ runes_of_ascii """ )
+    `say ""hi""`, lengthOf $`` ,  }")).
+Eval vm_compute in ("<<<M2945>>>" ++ check (runes_of_ascii "packet A {
+  match k as n {
+    [1, 22, ""c c"", 4, 5, ""f"", 7, 8] : B,
+    2 : C
+  },
+}")).
+Eval vm_compute in ("<<<M2922>>>" ++ check (runes_of_ascii "packet A {
+  match k as n {
+    [""a"", ""bb"", 007, ""d"", ""e"", 66] : B
+    2 : C
+  },
+}")).
+Eval vm_compute in ("<<<M3294>>>" ++ check (runes_of_ascii "packet // c
+o { @tag( 42 ) repeat x { char[ 0123456789 ] i64_ , } , } options { }")).
+Eval vm_compute in ("<<<M3326>>>" ++ check (runes_of_ascii "packet o { @tag( 42 ) repeat x { char[ 0123456789 ] i64_ , } , } // c
+options { }")).
+Eval vm_compute in ("<<<M1250>>>" ++ check (runes_of_ascii "
+options
+    // " ++ [128512]%N ++ runes_of_ascii " emoji
+    {
+lengthOf =
+    f64 ;body=
+    true ; } // a // b")).
+Eval vm_compute in ("<<<M2905>>>" ++ check (runes_of_ascii "packet A {
+  match k as n {
+    [""a"", 22, ""c c"", 4, ""e""] : B
+    2 : C
+  },
+}")).
+Eval vm_compute in ("<<<M2912>>>" ++ check (runes_of_ascii "packet A {
+  match k as n {
+    [1, 22, 007, 4, 5, 66] : B
+    2 : C
+  },
+}")).
+Eval vm_compute in ("<<<M237>>>" ++ check (runes_of_ascii "// " ++ [128512]%N ++ runes_of_ascii " emoji
+packet	roots
+    // trailing space 
+    {
+    } // @lengthOf(")).
+Eval vm_compute in ("<<<M2195>>>" ++ check (runes_of_ascii "root
+    // `tick` ""quote"" 'q'
+    @tagpacket As { trueish Packet , }
+")).
+Eval vm_compute in ("<<<M471>>>" ++ check (runes_of_ascii "MetaData charz {  int8 _x `tab	here` ,u64 Pad
+`say ""hi""`
+    ,
     }
-    packet")).
-Eval vm_compute in ("<<<M1973>>>" ++ check (runes_of_ascii "root
-packet crc
-    f32a { @calculatedFrom( """ ++ [233]%N ++ runes_of_ascii "t" ++ [233]%N ++ runes_of_ascii """ )
-    `say ""hi""`, lengthOf `` ,  }")).
-Eval vm_compute in ("<<<M2951>>>" ++ check (runes_of_ascii "packet A {
-  match k as n {
-    [1, 22, 007, 4, 5, 66, 7, 8, 9] : B
-    2 : C
-  },
-}")).
-Eval vm_compute in ("<<<M1965>>>" ++ check (runes_of_ascii "root
-as crc
-    { f32a @calculatedFrom( """ ++ [233]%N ++ runes_of_ascii "t" ++ [233]%N ++ runes_of_ascii """ )
-    `say ""hi""`, lengthOf `` ,  }")).
-Eval vm_compute in ("<<<M3317>>>" ++ check (runes_of_ascii "packet o { @tag( 42 ) repeat x { char[ 0123456789 ]
-// c
-i64_ , } , } options { }")).
-Eval vm_compute in ("<<<M3664>>>" ++ check (runes_of_ascii "root
-    packet
-    P 
-{
-
-    u8
-    s_u8 , 
-repeat u8 r_u8
-
-,u16  b_len  ,
-	}")).
-Eval vm_compute in ("<<<M2015>>>" ++ check (runes_of_ascii "root
-packet crc
-    { f32a @calculatedFrom( """ ++ [233]%N ++ runes_of_ascii "t" ++ [233]%N ++ runes_of_ascii """ )
-    `say ""hi""`, lengthOf")).
-Eval vm_compute in ("<<<M4241>>>" ++ check (runes_of_ascii "  packet	o
-{
-@rightPad
-	(  )	// trailing space 
-x_y_z calculatedFrom
-
-, } ")).
-Eval vm_compute in ("<<<M2874>>>" ++ check (runes_of_ascii "packet A {
-  match k as n {
-    [""a"", ""bb"", ""c c""] : B,
-    2 : C
-  },
-}")).
-Eval vm_compute in ("<<<M2279>>>" ++ check (runes_of_ascii "MetaData Packet { }packet	asx  { @lengthOf( asx) falsey`crlf
-line`
-,")).
-Eval vm_compute in ("<<<M2162>>>" ++ check (runes_of_ascii "root
-    // `tick` ""quote"" 'q'
-    packet As As { trueish Packet , }
 ")).
-Eval vm_compute in ("<<<M2886>>>" ++ check (runes_of_ascii "packet A {
-  match k as n {
-    [1, 22, 007, 4] : B
-    2 : C
-  },
-}")).
-Eval vm_compute in ("<<<M2173>>>" ++ check (runes_of_ascii "root
+Eval vm_compute in ("<<<M2762>>>" ++ check (runes_of_ascii "@lengthOf( ; @tag( u16 , @tag( ""it's"" @tag( [ @leftPad char[] char[]")).
+Eval vm_compute in ("<<<M2159>>>" ++ check (runes_of_ascii "root
     // `tick` ""quote"" 'q'
-    packet As { Packet trueish , }
+    As packet { trueish Packet , }
 ")).
-Eval vm_compute in ("<<<M1824>>>" ++ check (runes_of_ascii "packet
-    Pad // a // b
-{ i8i8 @calculatedFrom( ""a	b"") `u8 x,`")).
-Eval vm_compute in ("<<<M2153>>>" ++ check (runes_of_ascii "
-    // `tick` ""quote"" 'q'
-    packet As { trueish Packet , }
-")).
-Eval vm_compute in ("<<<M2864>>>" ++ check (runes_of_ascii "packet A {
-  match k as n {
-    [1, 22] : B
-    2 : C
-  },
+Eval vm_compute in ("<<<M4488>>>" ++ check (runes_of_ascii "MetaData Pad {
+    Foo a1,
+    f64 metadata,
+    zchar string_,
 }")).
+Eval vm_compute in ("<<<M1750>>>" ++ check (runes_of_ascii "options { `// not a comment`options {  } // `tick` ""quote"" 'q'")).
+Eval vm_compute in ("<<<M2176>>>" ++ check (runes_of_ascii "root
+    // `tick` ""quote"" 'q'
+    packet As { trueish  , }
+")).
 Eval vm_compute in ("<<<M2832>>>" ++ check (runes_of_ascii "] u8 u32 `line1
 line2` root ) char ) match '\x00' int8 = (")).
-Eval vm_compute in ("<<<M500>>>" ++ check (runes_of_ascii "packet body { i32 Z9_ @lengthOf( roots),
-    //	t
-    }
-")).
-Eval vm_compute in ("<<<M3989>>>" ++ check (runes_of_ascii "packet A
+Eval vm_compute in ("<<<M466>>>" ++ check (runes_of_ascii "options
+{ string_=
+7 tag = string;
+roots
+=true  ; } 	 ")).
+Eval vm_compute in ("<<<M3748>>>" ++ check (runes_of_ascii "
 
-{ u8
-
-    x
-
-    `d" ++ [160]%N ++ runes_of_ascii "`
-    ,  // c" ++ [160]%N ++ runes_of_ascii "
-	  } ")).
-Eval vm_compute in ("<<<M2808>>>" ++ check (runes_of_ascii "match , ) u32 @lengthOf( [ int16 00 u8 ) = u16 { u16")).
-Eval vm_compute in ("<<<M2412>>>" ++ check (runes_of_ascii "MetaData A
-{
-< i64
-chars	, } // `tick` ""quote"" 'q'")).
-Eval vm_compute in ("<<<M801>>>" ++ check (runes_of_ascii "MetaData tag { Logon rootA `` ,
-} packet Pad{
+  MetaData
+	trueish
+{	i8
+	MetaDataX // " ++ [27880; 37322]%N ++ runes_of_ascii "
+    	, 
 }
 ")).
-Eval vm_compute in ("<<<M2259>>>" ++ check (runes_of_ascii "MetaData Packet { }packet	asx  { @lengthOf( asx")).
-Eval vm_compute in ("<<<M1264>>>" ++ check (runes_of_ascii "root
-packet options1
-{ }
-root packet int{ }")).
-Eval vm_compute in ("<<<M340>>>" ++ check (runes_of_ascii "packet int
-    { }
-    packet u128 {
-    }
+Eval vm_compute in ("<<<M3872>>>" ++ check (runes_of_ascii "MetaData
+	A {  i64 chars 
+,}// `tick` ""qu?ote"" 'q'
 ")).
-Eval vm_compute in ("<<<M2131>>>" ++ check (runes_of_ascii "MetaData x
-{// " ++ [128512]%N ++ runes_of_ascii " emoji
-i16 stringy , char[")).
-Eval vm_compute in ("<<<M4224>>>" ++ check (runes_of_ascii "options 
+Eval vm_compute in ("<<<M3170>>>" ++ check (runes_of_ascii "packet A { B { // a
+ u8 x, // b
+ } // c
+ , // d
+ }")).
+Eval vm_compute in ("<<<M1934>>>" ++ check (runes_of_ascii "
+packet	As { @calculatedFrom(//x
+""{,}""	)lengthOf")).
+Eval vm_compute in ("<<<M2844>>>" ++ check (runes_of_ascii "char[] options 007 , repeat int64 00 { } zchar[")).
+Eval vm_compute in ("<<<M735>>>" ++ check (runes_of_ascii "
+options
+{ stringy =' ' /// triple
+;
+    } 	 ")).
+Eval vm_compute in ("<<<M2840>>>" ++ check (runes_of_ascii "[ u8 char[] int64 string } ""\" ++ [233]%N ++ runes_of_ascii """ packet char[")).
+Eval vm_compute in ("<<<M1741>>>" ++ check (runes_of_ascii "char { }options {  } // `tick` ""quote"" 'q'")).
+Eval vm_compute in ("<<<M4507>>>" ++ check (runes_of_ascii "options
+
 {
 
-string_
-	= zchar[	007 ] ; 
-}
+    Z9_ =
+
+    '\x00'
+	}
 ")).
-Eval vm_compute in ("<<<M3195>>>" ++ check (runes_of_ascii "MetaData zchar {
-// c
+Eval vm_compute in ("<<<M3194>>>" ++ check (runes_of_ascii "MetaData zchar { // c
 zchar[ 3 ] Pad , }")).
-Eval vm_compute in ("<<<M2845>>>" ++ check (runes_of_ascii "k" ++ [65533]%N ++ runes_of_ascii "4" ++ [65533]%N ++ runes_of_ascii "uQ" ++ [65533]%N ++ runes_of_ascii "az" ++ [65533]%N ++ runes_of_ascii "e" ++ [65533; 65533]%N ++ runes_of_ascii ":" ++ [65533]%N ++ runes_of_ascii "o" ++ [65533; 28; 65533]%N ++ runes_of_ascii "o" ++ [14; 65533]%N ++ runes_of_ascii "9" ++ [65533; 24; 1654; 65533]%N ++ runes_of_ascii "|2" ++ [65533; 65533]%N ++ runes_of_ascii "1\" ++ [65533]%N ++ runes_of_ascii "iI" ++ [65533; 65533]%N ++ runes_of_ascii """")).
-Eval vm_compute in ("<<<M4305>>>" ++ check (runes_of_ascii "MetaData trueish {
-    i8 MetaDataX,
+Eval vm_compute in ("<<<M2193>>>" ++ check (runes_of_ascii "root
+    // `tick` ""quote"" 'q'
+    pack")).
+Eval vm_compute in ("<<<M3765>>>" ++ check (runes_of_ascii "root packet As {
+    trueish Packet,
 }")).
-Eval vm_compute in ("<<<M2613>>>" ++ check (runes_of_ascii "packet A { match k as n { x : B }, }")).
-Eval vm_compute in ("<<<M2029>>>" ++ check (runes_of_ascii "root
-packet crc
-    { f32a @calcu")).
-Eval vm_compute in ("<<<M4067>>>" ++ check (runes_of_ascii "packet u128 {
-    char[00] Pad,
+Eval vm_compute in ("<<<M2602>>>" ++ check (runes_of_ascii "packet A { match k as n { 1 : B }, }")).
+Eval vm_compute in ("<<<M2611>>>" ++ check (runes_of_ascii "packet A { match k as { 1 : B }, }")).
+Eval vm_compute in ("<<<M1804>>>" ++ check (runes_of_ascii "packet
+    Pad // a // b
+{ i8i8")).
+Eval vm_compute in ("<<<M4164>>>" ++ check (runes_of_ascii "options {
+    Logon = '\x00';
 }")).
-Eval vm_compute in ("<<<M1646>>>" ++ check (runes_of_ascii "root packet /// triple
-rootA {")).
-Eval vm_compute in ("<<<M3093>>>" ++ check (runes_of_ascii "packet A {
- u8 x `d" ++ [8202]%N ++ runes_of_ascii "`, // c" ++ [8202]%N ++ runes_of_ascii "
+Eval vm_compute in ("<<<M3123>>>" ++ check (runes_of_ascii "packet A {
+ u8 x `d" ++ [12]%N ++ runes_of_ascii "`, // c" ++ [12]%N ++ runes_of_ascii "
 }")).
-Eval vm_compute in ("<<<M161>>>" ++ check (runes_of_ascii "packet u {A
-    trueish , }
-")).
-Eval vm_compute in ("<<<M2621>>>" ++ check (runes_of_ascii "packet A { @leftPad u8 x, }")).
-Eval vm_compute in ("<<<M2592>>>" ++ check (runes_of_ascii "packet A { x @leftPad(), }")).
-Eval vm_compute in ("<<<M3270>>>" ++ check (runes_of_ascii "
+Eval vm_compute in ("<<<M2062>>>" ++ check (runes_of_ascii "MetaData A { u64 u64 pack, }")).
+Eval vm_compute in ("<<<M2771>>>" ++ check (runes_of_ascii "yI^UB""SmPxS\Q^)mT~k`!;LS}q%")).
+Eval vm_compute in ("<<<M2715>>>" ++ check (runes_of_ascii " " ++ [65533]%N ++ runes_of_ascii "=" ++ [65533; 972; 65533; 65533; 7; 65533; 65533; 1876; 65533; 65533]%N ++ runes_of_ascii "4G" ++ [27; 65533; 18; 65533]%N ++ runes_of_ascii "U" ++ [65533; 65533]%N ++ runes_of_ascii "+" ++ [65533; 23]%N ++ runes_of_ascii "{")).
+Eval vm_compute in ("<<<M3381>>>" ++ check (runes_of_ascii "
 // c
-options { u8x = 3 }")).
-Eval vm_compute in ("<<<M3272>>>" ++ check (runes_of_ascii "options
-// c
-{ u8x = 3 }")).
+packet lengthOf { }")).
+Eval vm_compute in ("<<<M3275>>>" ++ check (runes_of_ascii "options { u8x // c
+= 3 }")).
 Eval vm_compute in ("<<<M2789>>>" ++ check (runes_of_ascii "packet `say ""hi""` int32")).
-Eval vm_compute in ("<<<M3890>>>" ++ check (runes_of_ascii "  MetaData
-asx
-{ 
+Eval vm_compute in ("<<<M4031>>>" ++ check (runes_of_ascii "packet repeatCount {
+}")).
+Eval vm_compute in ("<<<M552>>>" ++ check (runes_of_ascii "MetaData Packet  { }")).
+Eval vm_compute in ("<<<M2667>>>" ++ check (runes_of_ascii "options options { }")).
+Eval vm_compute in ("<<<M2753>>>" ++ check (runes_of_ascii ": ) uint16 root as")).
+Eval vm_compute in ("<<<M3131>>>" ++ check (runes_of_ascii "packet A {
 }
+// c" ++ [8203]%N)).
+Eval vm_compute in ("<<<M3069>>>" ++ check (runes_of_ascii "packet A {
+}// c" ++ [160]%N)).
+Eval vm_compute in ("<<<M325>>>" ++ check (runes_of_ascii "packet Z9_ {	}
+")).
+Eval vm_compute in ("<<<M4282>>>" ++ check (runes_of_ascii "packet Z9_ {
+}")).
+Eval vm_compute in ("<<<M2816>>>" ++ check (runes_of_ascii "uint64 as {")).
+Eval vm_compute in ("<<<M2462>>>" ++ check (runes_of_ascii "Metadata")).
+Eval vm_compute in ("<<<M2426>>>" ++ check (runes_of_ascii "char [")).
+Eval vm_compute in ("<<<M2464>>>" ++ check (runes_of_ascii "match")).
+Eval vm_compute in ("<<<M4128>>>" ++ check (runes_of_ascii "
+// c")).
+Eval vm_compute in ("<<<M2436>>>" ++ check (runes_of_ascii "u8x")).
+Eval vm_compute in ("<<<M205>>>" ++ check (runes_of_ascii "
 
 ")).
-Eval vm_compute in ("<<<M477>>>" ++ check (runes_of_ascii "MetaData pack
-{ } 	 ")).
-Eval vm_compute in ("<<<M2641>>>" ++ check (runes_of_ascii "MetaData M { u8 x }")).
-Eval vm_compute in ("<<<M2854>>>" ++ check (runes_of_ascii "8Fa/Ek?q4_g4W,XqgA")).
-Eval vm_compute in ("<<<M3141>>>" ++ check (runes_of_ascii "packet A {
-}
-// c" ++ [6158]%N)).
-Eval vm_compute in ("<<<M3084>>>" ++ check (runes_of_ascii "packet A {
-}// c" ++ [8192]%N)).
-Eval vm_compute in ("<<<M707>>>" ++ check (runes_of_ascii "  options{} //x")).
-Eval vm_compute in ("<<<M3706>>>" ++ check (runes_of_ascii "packet len {
-}")).
-Eval vm_compute in ("<<<M2755>>>" ++ check ([1074; 18; 65533; 65533; 65533]%N ++ runes_of_ascii "G" ++ [23; 65533; 65533]%N ++ runes_of_ascii "+t")).
-Eval vm_compute in ("<<<M4410>>>" ++ check (runes_of_ascii "
-// c" ++ [8233]%N ++ runes_of_ascii "
-")).
-Eval vm_compute in ("<<<M3717>>>" ++ check (runes_of_ascii "
-// c
-")).
-Eval vm_compute in ("<<<M2429>>>" ++ check (runes_of_ascii "char_")).
-Eval vm_compute in ("<<<M3110>>>" ++ check (runes_of_ascii "// c" ++ [8287]%N)).
-Eval vm_compute in ("<<<M3581>>>" ++ check (runes_of_ascii "  //")).
-Eval vm_compute in ("<<<M2670>>>" ++ check (runes_of_ascii "{ }")).
-Eval vm_compute in ("<<<M2442>>>" ++ check (runes_of_ascii "u")).
+Eval vm_compute in ("<<<M2551>>>" ++ check ([233]%N)).
